@@ -753,9 +753,17 @@ Proof.
     + destruct (V3 y) as (_ & _ & _ & A). rewrite A. rewrite (sshape_vslen sch s1 y SS1 EY). rewrite TE. eapply set_info_lt. eapply wf_ref_set; eauto.
 Qed.
 
+Definition target_ok (s : sess) (t : nat) (v : val) : bool :=
+  match v with
+  | VRef y => match get_obj s y with Some oby => Nat.eqb (o_ent oby) t | None => false end
+  | _ => true
+  end.
+
 Lemma ref_set_direct_gen : forall s o a v, ref_set_direct sch s o a v =
-  match ref_info sch (obj_ent s o) a with Some (_, r) => set_ref_gen rev_add s o a r v | None => s end.
-Proof. intros. unfold ref_set_direct, set_ref_gen. destruct (ref_info sch (obj_ent s o) a) as [[t r]|]; reflexivity. Qed.
+  match ref_info sch (obj_ent s o) a with Some (t, r) => if negb (target_ok s t v) then s else set_ref_gen rev_add s o a r v | None => s end.
+Proof.
+  intros. unfold ref_set_direct, set_ref_gen, target_ok. destruct (ref_info sch (obj_ent s o) a) as [[t r]|]; auto.
+Qed.
 
 Lemma ref_set_rev_gen : forall s o a v, ref_set_rev sch s o a v =
   match ref_info sch (obj_ent s o) a with Some (_, r) => set_ref_gen (fun s0 _ _ _ => s0) s o a r v | None => s end.
@@ -764,13 +772,14 @@ Proof.
   destruct (oval_eqb (obj_val s o a) (Some v)); auto. destruct v; reflexivity.
 Qed.
 
-Lemma Pkr_ref_set_direct : forall s o a v t r,
-  Pkr sch s -> vex s o = true -> is_del (obj_st s o) = false -> ref_info sch (vent s o) a = Some (t, r) ->
-  (forall y, v = VRef y -> vex s y = true /\ vent s y = t) ->
-  Pkr sch (ref_set_direct sch s o a v).
+Lemma Pkr_ref_set_direct : forall s o a v,
+  Pkr sch s -> vex s o = true -> is_del (obj_st s o) = false -> Pkr sch (ref_set_direct sch s o a v).
 Proof.
-  intros. rewrite ref_set_direct_gen. unfold vent in H2. rewrite H2.
+  intros s o a v P EX ND. rewrite ref_set_direct_gen. destruct (ref_info sch (obj_ent s o) a) as [[t r]|] eqn:RI; auto.
+  destruct (target_ok s t v) eqn:TK; simpl; auto.
   eapply Pkr_set_ref_gen; eauto. apply rev_add_adds. intros. apply kframe_rev_add.
+  intros y H. subst v. unfold target_ok in TK. unfold vex, vent, obj_ent. destruct (get_obj s y) as [oby|]; try discriminate.
+  apply Nat.eqb_eq in TK. auto.
 Qed.
 
 (* the collection side unlinks an item: item.a = None *)
@@ -783,11 +792,16 @@ Proof.
   rewrite E. eapply Pkr_set_ref_gen; eauto. apply rev_add_adds. intros. apply kframe_rev_add. intros y H. discriminate.
 Qed.
 Lemma Pkr_item_link : forall s o a r item,
-  Pkr sch s -> vex s item = true -> is_del (obj_st s item) = false -> vex s o = true ->
-  ref_info sch (vent s item) r = Some (vent s o, a) ->
-  Pkr sch (item_link sch s o a r item).
+  Pkr sch s -> vex s item = true -> is_del (obj_st s item) = false -> Pkr sch (item_link sch s o a r item).
 Proof.
-  intros s o a r item P EX ND EXO RI. unfold item_link. unfold vent in RI. rewrite RI. rewrite Nat.eqb_refl.
+  intros s o a r item P EX ND. unfold item_link.
+  destruct (ref_info sch (obj_ent s item) r) as [[t' a']|] eqn:RI0; auto.
+  destruct (get_obj s o) as [obo|] eqn:GO; auto.
+  destruct (Nat.eqb a' a && Nat.eqb t' (o_ent obo)) eqn:GU; auto.
+  apply andb_true_iff in GU. destruct GU as [GU1 GU2]. apply Nat.eqb_eq in GU1, GU2. subst a' t'.
+  assert (EXO : vex s o = true) by (unfold vex; rewrite GO; reflexivity).
+  assert (RI : ref_info sch (obj_ent s item) r = Some (vent s o, a)) by (unfold vent, obj_ent; rewrite GO; exact RI0).
+  clear RI0.
   rewrite ref_set_rev_gen. rewrite RI. unfold set_ref_gen.
   destruct (oval_eqb (obj_val s item r) (Some (VRef o))) eqn:SAME.
   - (* already linked: only the membership is (re)asserted *)
@@ -1007,7 +1021,7 @@ Proof.
     destruct (TY y t r eq_refl RI) as [EY TE].
     assert (LTr : (r < vslen s y)%nat).
     { rewrite (sshape_vslen sch s y SS EY). rewrite TE. eapply set_info_lt. eapply wf_ref_set; eauto. }
-    destruct (db_rev_add s y r o) as [s1 u|s1 er] eqn:DB; cbn [out_state] in *; [|auto].
+    destruct (db_rev_add s y r o) as [s1 u|s1 er] eqn:DB; cbn [out_state] in *; [|exfalso; unfold mark_dirty in CLEAN; cbn [s_dirty] in CLEAN; destruct (s_dirty s1); discriminate].
     destruct (db_rev_add_adds s y r o s1 u EY LTr DB) as (A1 & A2 & A3).
     assert (NU : attr_uniq sch e a = false) by (eapply wf_ref_not_uniq; eauto).
     assert (DI : dbset_index sch s1 o e a (VRef y) = s1) by (unfold dbset_index; rewrite NU; reflexivity).
@@ -1026,6 +1040,1162 @@ Proof.
       * intros o'. destruct (A1 o') as (B1 & B2 & B3 & _). destruct (P1 o') as (C1 & C2 & C3 & _). repeat split; congruence.
       * intros o' a' t' r' _. rewrite P3. rewrite A2. reflexivity.
       * intros o' r' z. rewrite P2. rewrite A3. simpl. rewrite (Nat.eqb_sym y o'). tauto.
-  - discriminate.
 Qed.
 End RelLeaves4.
+
+(* ---------------------------------------------------------------- loading rows *)
+
+(* objects stay, with their entity *)
+Definition emono (s s' : sess) : Prop := forall o ob, get_obj s o = Some ob -> exists ob', get_obj s' o = Some ob' /\ o_ent ob' = o_ent ob.
+
+Lemma emono_refl : forall s, emono s s. Proof. intros s o ob G. exists ob. auto. Qed.
+Lemma emono_trans : forall s1 s2 s3, emono s1 s2 -> emono s2 s3 -> emono s1 s3.
+Proof. intros s1 s2 s3 A B o ob G. destruct (A o ob G) as (ob2 & G2 & E2). destruct (B o ob2 G2) as (ob3 & G3 & E3). exists ob3. split; auto. congruence. Qed.
+Lemma emono_fields : forall s s', s_objs s' = s_objs s -> emono s s'.
+Proof. intros s s' H o ob G. exists ob. split; auto. unfold get_obj in *. congruence. Qed.
+Lemma emono_upd_obj : forall s o f, (forall ob, o_ent (f ob) = o_ent ob) -> emono s (upd_obj s o f).
+Proof.
+  intros s o f H o' ob G. rewrite get_upd_obj. destruct (Nat.eqb o o'). rewrite G. simpl. exists (f ob). auto. exists ob. auto.
+Qed.
+Lemma emono_kframe : forall sch s s', kframe sch s s' -> emono s s'.
+Proof. intros sch s s' (_ & _ & _ & F) o ob G. destruct (F o ob G) as (b & Hb & K). exists b. split; auto. destruct K as (K & _). auto. Qed.
+Lemma emono_push : forall s ob, emono s (fst (push_obj s ob)).
+Proof. intros s ob o ob0 G. exists ob0. split; auto. rewrite get_push_obj_old; auto. eapply get_obj_lt; eauto. Qed.
+
+Lemma emono_vex : forall s s' o, emono s s' -> vex s o = true -> vex s' o = true /\ vent s' o = vent s o.
+Proof.
+  intros s s' o M E. unfold vex, vent, obj_ent in *. destruct (get_obj s o) as [ob|] eqn:G; try discriminate.
+  destruct (M o ob G) as (ob' & G' & EE). rewrite G'. auto.
+Qed.
+
+Section RelLoad.
+Variable sch : schema.
+Hypothesis WF : wf_schema sch = true.
+
+Lemma emono_get_or_seed : forall s e pk, emono s (fst (get_or_seed sch s e pk)).
+Proof.
+  intros. unfold get_or_seed. destruct (idx_get s e O (VInt pk)). apply emono_refl.
+  cbn [fst]. eapply emono_trans. apply emono_push. apply emono_fields. reflexivity.
+Qed.
+
+Lemma emono_dbset_attr : forall s o e a v, emono s (out_state (dbset_attr sch s o e a v)).
+Proof.
+  intros. unfold dbset_attr. destruct (get_obj s o) as [ob|] eqn:G; [|apply emono_refl].
+  destruct (get_attr sch e a) as [at_|]; [|apply emono_refl].
+  destruct (is_set_kind (a_kind at_)); [apply emono_refl|].
+  destruct (odbval ob a) as [old|].
+  { destruct (val_eqb old v). apply emono_refl. simpl. apply emono_fields. reflexivity. }
+  destruct (owbit ob a).
+  { destruct (a_kind at_) as [| |t r|t r]; try (simpl; apply emono_upd_obj; intros; auto).
+    destruct v; try (simpl; apply emono_upd_obj; intros; auto).
+    pose proof (emono_kframe sch s _ (kframe_db_rev_add sch s o0 r o)) as E1. destruct (db_rev_add s o0 r o) as [s1 u|s1 er]; simpl in *.
+    - eapply emono_trans. apply E1. eapply emono_trans; [|apply emono_fields; reflexivity]. apply emono_upd_obj. intros; auto.
+    - eapply emono_trans. apply E1. apply emono_fields. reflexivity. }
+  destruct (oval ob a). { simpl. apply emono_fields. reflexivity. }
+  match goal with |- context [if ?c then _ else _] => destruct c end. { simpl. apply emono_fields. reflexivity. }
+  assert (E1 : emono s (out_state (match a_kind at_, v with KRef _ r, VRef y => db_rev_add s y r o | _, _ => Ok s tt end))).
+  { destruct (a_kind at_); try apply emono_refl. destruct v; try apply emono_refl. apply (emono_kframe sch). apply kframe_db_rev_add. }
+  destruct (match a_kind at_, v with KRef _ r, VRef y => db_rev_add s y r o | _, _ => Ok s tt end) as [s1 u|s1 er]; simpl in *.
+  - eapply emono_trans. apply E1. eapply emono_trans. apply emono_fields. apply dbset_index_objs. apply emono_upd_obj. intros; auto.
+  - eapply emono_trans. apply E1. apply emono_fields. reflexivity.
+Qed.
+
+(* the reference values of a parsed row point to existing objects of the right entities *)
+Definition typed_vals (s : sess) (e a0 : nat) (vals : list val) : Prop :=
+  forall i y t r, nth_error vals i = Some (VRef y) -> ref_info sch e (a0 + i) = Some (t, r) -> vex s y = true /\ vent s y = t.
+
+Lemma typed_vals_emono : forall s s' e a0 vals, emono s s' -> typed_vals s e a0 vals -> typed_vals s' e a0 vals.
+Proof.
+  intros s s' e a0 vals M T i y t r N RI. destruct (T i y t r N RI) as [A B]. destruct (emono_vex s s' y M A) as [C D]. split; congruence.
+Qed.
+
+Lemma Pkr_dbset_loop : forall vals s o e a,
+  Pkr sch s -> obj_ent s o = e -> vex s o = true -> is_del (obj_st s o) = false -> typed_vals s e a vals ->
+  Pkr sch (out_state (dbset_loop sch s o e a vals)).
+Proof.
+  induction vals as [|v t IH]; intros s o e a P EE EX ND TV; simpl. exact P.
+  assert (TYv : forall y t0 r, v = VRef y -> ref_info sch e a = Some (t0, r) -> vex s y = true /\ vent s y = t0).
+  { intros y t0 r H RI. subst v. apply (TV O y t0 r). reflexivity. rewrite Nat.add_0_r. exact RI. }
+  pose proof (Pkr_dbset_attr sch WF s o e a v P EE EX ND TYv) as P1.
+  pose proof (est_same_dbset_attr sch s o e a v o) as [E1 E2].
+  pose proof (emono_dbset_attr s o e a v) as M.
+  destruct (dbset_attr sch s o e a v) as [s1 u|s1 er]; simpl in *; auto.
+  apply IH; auto. congruence. apply (emono_vex s s1 o M EX). rewrite E2. exact ND.
+  apply (typed_vals_emono s s1 e (S a) t M). intros i y t0 r N RI. apply (TV (S i) y t0 r). exact N.
+  replace (a + S i)%nat with (S a + i)%nat by lia. exact RI.
+Qed.
+
+Lemma Fr_seed_off : forall s o, Fr sch s (upd_obj s o (fun ob => ob_set_seed ob false)).
+Proof. intros. apply Fr_upd_obj. intros. split. apply kobj_eq_seed. apply robj_eq_seed. Qed.
+
+Lemma Pkr_db_set_obj : forall s o e vals,
+  Pkr sch s -> obj_ent s o = e -> vex s o = true -> is_del (obj_st s o) = false -> typed_vals s e O vals ->
+  Pkr sch (out_state (db_set_obj sch s o e vals)).
+Proof.
+  intros s o e vals P EE EX ND TV. unfold db_set_obj.
+  pose proof (Fr_seed_off s o) as F. destruct F as [KF RF].
+  apply Pkr_dbset_loop.
+  - eapply Fr_Pkr; eauto. split; auto.
+  - rewrite (kframe_obj_ent sch s _ o KF). exact EE.
+  - destruct (rframe_vsame1 sch s _ RF o) as (A & _). congruence.
+  - rewrite (kframe_is_del sch s _ o KF). exact ND.
+  - eapply typed_vals_emono; eauto. eapply emono_kframe; eauto.
+Qed.
+
+Lemma parse_cols_dirty : forall cols s e a, s_dirty (fst (parse_cols sch s e a cols)) = s_dirty s.
+Proof.
+  induction cols as [|c t IH]; intros s e a; simpl. reflexivity.
+  destruct (ref_info sch e a) as [[tgt r]|].
+  - destruct c; try (specialize (IH s e (S a)); destruct (parse_cols sch s e (S a) t); exact IH).
+    pose proof (get_or_seed_dirty sch s tgt z) as D1. destruct (get_or_seed sch s tgt z) as [s1 o]. simpl in D1.
+    specialize (IH s1 e (S a)). destruct (parse_cols sch s1 e (S a) t). simpl in *. congruence.
+  - specialize (IH s e (S a)). destruct (parse_cols sch s e (S a) t). exact IH.
+Qed.
+
+Lemma Pkr_parse_cols : forall cols s e a, Pkr sch s -> Pkr sch (fst (parse_cols sch s e a cols)).
+Proof.
+  induction cols as [|c t IH]; intros s e a P; simpl. exact P.
+  destruct (ref_info sch e a) as [[tgt r]|].
+  - destruct c; try (specialize (IH s e (S a) P); destruct (parse_cols sch s e (S a) t); exact IH).
+    pose proof (Pkr_get_or_seed sch s tgt z P) as P1. destruct (get_or_seed sch s tgt z) as [s1 o]. simpl in P1.
+    specialize (IH s1 e (S a) P1). destruct (parse_cols sch s1 e (S a) t). exact IH.
+  - specialize (IH s e (S a) P). destruct (parse_cols sch s e (S a) t). exact IH.
+Qed.
+
+Lemma emono_parse_cols : forall cols s e a, emono s (fst (parse_cols sch s e a cols)).
+Proof.
+  induction cols as [|c t IH]; intros s e a; simpl. apply emono_refl.
+  destruct (ref_info sch e a) as [[tgt r]|].
+  - destruct c; try (specialize (IH s e (S a)); destruct (parse_cols sch s e (S a) t); exact IH).
+    pose proof (emono_get_or_seed s tgt z) as M1. destruct (get_or_seed sch s tgt z) as [s1 o]. simpl in M1.
+    specialize (IH s1 e (S a)). destruct (parse_cols sch s1 e (S a) t). simpl in *. eapply emono_trans; eauto.
+  - specialize (IH s e (S a)). destruct (parse_cols sch s e (S a) t). exact IH.
+Qed.
+
+Lemma typed_parse_cols : forall cols s e a, Pk sch s -> s_dirty s = O ->
+  typed_vals (fst (parse_cols sch s e a cols)) e a (snd (parse_cols sch s e a cols)).
+Proof.
+  induction cols as [|c t IH]; intros s e a P CL; simpl.
+  - intros i y t0 r N. destruct i; discriminate.
+  - assert (INV : Inv_idx sch s) by (destruct P as [D|[I _]]; [congruence|exact I]).
+    destruct (ref_info sch e a) as [[tgt r]|] eqn:RI.
+    + destruct c as [|z| |].
+      1,3,4: (specialize (IH s e (S a) P CL); destruct (parse_cols sch s e (S a) t) as [s2 vs]; simpl in *;
+              intros i y t0 r0 N RI0; destruct i; [simpl in N; discriminate|]; simpl in N;
+              apply (IH i y t0 r0 N); replace (S a + i)%nat with (a + S i)%nat by lia; exact RI0).
+      pose proof (get_or_seed_ent sch s tgt z INV) as [EX EN].
+      pose proof (Pk_get_or_seed sch s tgt z P) as P1. pose proof (get_or_seed_dirty sch s tgt z) as D1.
+      destruct (get_or_seed sch s tgt z) as [s1 o]. simpl in *.
+      assert (CL1 : s_dirty s1 = O) by congruence.
+      specialize (IH s1 e (S a) P1 CL1). pose proof (emono_parse_cols t s1 e (S a)) as M.
+      destruct (parse_cols sch s1 e (S a) t) as [s2 vs]. simpl in *.
+      intros i y t0 r0 N RI0. destruct i.
+      * simpl in N. inversion N; subst y. rewrite Nat.add_0_r in RI0. assert (t0 = tgt) by congruence. subst t0.
+        destruct (emono_vex s1 s2 o M EX) as [A B]. split; congruence.
+      * simpl in N. apply (IH i y t0 r0 N). replace (S a + i)%nat with (a + S i)%nat by lia. exact RI0.
+    + specialize (IH s e (S a) P CL). destruct (parse_cols sch s e (S a) t) as [s2 vs]. simpl in *.
+      intros i y t0 r0 N RI0. destruct i.
+      * simpl in N. rewrite Nat.add_0_r in RI0. congruence.
+      * simpl in N. apply (IH i y t0 r0 N). replace (S a + i)%nat with (a + S i)%nat by lia. exact RI0.
+Qed.
+End RelLoad.
+
+Section RelLoad2.
+Variable sch : schema.
+Hypothesis WF : wf_schema sch = true.
+
+Lemma dbset_loop_dirty_mono : forall vals s o e a, s_dirty s <> O -> s_dirty (out_state (dbset_loop sch s o e a vals)) <> O.
+Proof.
+  induction vals as [|v t IH]; intros s o e a D; simpl. exact D.
+  pose proof (dbset_attr_dirty_mono sch s o e a v D) as D1. destruct (dbset_attr sch s o e a v) as [s1 u|s1 er]; simpl in *; auto.
+Qed.
+
+Lemma load_row_dirty_mono : forall s e r, s_dirty s <> O -> s_dirty (out_state (load_row sch s e r)) <> O.
+Proof.
+  intros s e r D. unfold load_row.
+  pose proof (parse_cols_dirty sch (r_cols r) s e O) as D1. destruct (parse_cols sch s e 0 (r_cols r)) as [s1 vals]. simpl in D1.
+  pose proof (get_or_seed_dirty sch s1 e (r_pk r)) as D2. destruct (get_or_seed sch s1 e (r_pk r)) as [s2 o]. simpl in D2.
+  assert (D3 : s_dirty s2 <> O) by congruence.
+  destruct (is_del (obj_st s2 o)). exact D3.
+  destruct (status_eqb (obj_st s2 o) SCreated). simpl. unfold mark_dirty. cbn [s_dirty]. destruct (s_dirty s2); congruence.
+  unfold db_set_obj.
+  assert (D4 : s_dirty (upd_obj s2 o (fun ob => ob_set_seed ob false)) <> O) by (rewrite upd_obj_dirty; exact D3).
+  pose proof (dbset_loop_dirty_mono vals _ o (obj_ent s2 o) O D4) as D5.
+  destruct (dbset_loop sch (upd_obj s2 o (fun ob => ob_set_seed ob false)) o (obj_ent s2 o) 0 vals); exact D5.
+Qed.
+
+Lemma Pkr_load_row : forall s e r, Pkr sch s -> Pkr sch (out_state (load_row sch s e r)).
+Proof.
+  intros s e r P. destruct (Nat.eq_dec (s_dirty s) O) as [CL|DI]; [|left; apply load_row_dirty_mono; exact DI].
+  unfold load_row.
+  pose proof (Pkr_parse_cols sch (r_cols r) s e O P) as P1. pose proof (parse_cols_dirty sch (r_cols r) s e O) as D1.
+  pose proof (typed_parse_cols sch (r_cols r) s e O (Pkr_Pk sch s P) CL) as TV.
+  destruct (parse_cols sch s e 0 (r_cols r)) as [s1 vals]. simpl in P1, D1, TV.
+  assert (CL1 : s_dirty s1 = O) by congruence.
+  assert (I1 : Inv_idx sch s1) by (destruct P1 as [D|(I & _)]; [congruence|exact I]).
+  pose proof (Pkr_get_or_seed sch s1 e (r_pk r) P1) as P2. pose proof (get_or_seed_ent sch s1 e (r_pk r) I1) as [EX EN].
+  pose proof (emono_get_or_seed sch s1 e (r_pk r)) as M.
+  destruct (get_or_seed sch s1 e (r_pk r)) as [s2 o]. simpl in P2, EX, EN, M.
+  destruct (is_del (obj_st s2 o)) eqn:ND. exact P2.
+  destruct (status_eqb (obj_st s2 o) SCreated). simpl. apply Pkr_dirty. discriminate.
+  assert (P3 : Pkr sch (out_state (db_set_obj sch s2 o (obj_ent s2 o) vals))).
+  { apply Pkr_db_set_obj; auto. unfold vent in EN. rewrite EN. eapply typed_vals_emono; eauto. }
+  destruct (db_set_obj sch s2 o (obj_ent s2 o) vals); exact P3.
+Qed.
+
+Lemma Pkr_load_rows : forall rows s e, Pkr sch s -> Pkr sch (out_state (load_rows sch s e rows)).
+Proof.
+  induction rows as [|r t IH]; intros s e P; simpl. exact P.
+  pose proof (Pkr_load_row s e r P) as P1. destruct (load_row sch s e r) as [s1 x|s1 er]; simpl in *; auto.
+  specialize (IH s1 e P1). destruct (load_rows sch s1 e t); exact IH.
+Qed.
+
+Lemma Pkr_load_obj_noflush : forall s o, Pkr sch s -> Pkr sch (out_state (load_obj_noflush sch s o)).
+Proof.
+  intros s o P. unfold load_obj_noflush. destruct (get_obj s o) as [ob|]; [|exact P].
+  destruct (o_pk ob) as [pk|]; [|exact P].
+  match goal with |- context [load_rows sch s ?e ?rows] => pose proof (Pkr_load_rows rows s e P) as P1; destruct (load_rows sch s e rows) as [s1 os|s1 er] end; simpl in *; auto.
+  destruct (mem_nat o os); exact P1.
+Qed.
+
+Lemma Pkr_fields : forall s s', s_objs s' = s_objs s -> s_idx s' = s_idx s -> s_dirty s' = s_dirty s -> Pkr sch s -> Pkr sch s'.
+Proof. intros. eapply Fr_Pkr; eauto. apply Fr_fields; auto. Qed.
+
+Lemma Pkr_coll_load_noflush : forall s o a, Pkr sch s -> Pkr sch (out_state (coll_load_noflush sch s o a)).
+Proof.
+  intros s o a P. unfold coll_load_noflush.
+  assert (P0 : Pkr sch (coll_ensure s o a)) by (eapply Fr_Pkr; eauto; apply Fr_coll_ensure).
+  destruct (coll_full (coll_ensure s o a) o a). exact P0.
+  destruct (get_obj (coll_ensure s o a) o) as [ob|]; [|exact P0].
+  destruct (set_info sch (obj_ent (coll_ensure s o a) o) a) as [[t r]|]; [|exact P0].
+  match goal with |- context [load_rows sch ?s1 t ?rows] =>
+    assert (P1 : Pkr sch s1) by (eapply Fr_Pkr; [apply Fr_fold; intros; apply Fr_coll_ensure | exact P0]);
+    pose proof (Pkr_load_rows rows s1 t P1) as P2; destruct (load_rows sch s1 t rows) as [s2 os|s2 er] end; cbn [out_state] in *; auto.
+  eapply Pkr_fields; [reflexivity|reflexivity|reflexivity|].
+  eapply Fr_Pkr; [apply Fr_fold; intros; apply Fr_coll_mark_full | exact P2].
+Qed.
+
+Lemma Pkr_coll_load_items : forall s o a items, Pkr sch s -> Pkr sch (out_state (coll_load_items sch s o a items)).
+Proof.
+  intros s o a items P. unfold coll_load_items.
+  assert (P0 : Pkr sch (coll_ensure s o a)) by (eapply Fr_Pkr; eauto; apply Fr_coll_ensure).
+  destruct (coll_full (coll_ensure s o a) o a). exact P0.
+  destruct (set_info sch (obj_ent (coll_ensure s o a) o) a) as [[t r]|]; [|exact P0].
+  destruct items as [|i items]. apply Pkr_coll_load_noflush. exact P0.
+  match goal with |- context [match ?u with [] => _ | _ :: _ => _ end] => destruct u end. exact P0.
+  destruct (sd_items (get_sd (coll_ensure s o a) o a)).
+  - match goal with |- context [load_rows sch ?s1 t ?rows] =>
+      pose proof (Pkr_load_rows rows s1 t P0) as P2; destruct (load_rows sch s1 t rows) as [s2 os|s2 er] end; exact P2.
+  - apply Pkr_coll_load_noflush. exact P0.
+Qed.
+End RelLoad2.
+
+(* ---------------------------------------------------------------- flush *)
+
+Section RelFlush.
+Variable sch : schema.
+Hypothesis WF : wf_schema sch = true.
+
+Lemma after_update_vals_sets : forall ob, o_sets (after_update_vals sch ob) = o_sets ob.
+Proof.
+  intros. unfold after_update_vals. generalize (seq O (nattrs sch (o_ent ob))). intro l.
+  assert (H : forall acc, o_sets (fold_left (fun acc a => if owbit ob a then match oval acc a with Some v => ob_put_dbval acc a (Some v) | None => acc end else acc) l acc) = o_sets acc).
+  { induction l as [|a l IH]; intros acc; simpl. auto. rewrite IH. destruct (owbit ob a); auto. destruct (oval acc a); auto. }
+  apply H.
+Qed.
+
+Lemma oref_put_none : forall ob a x, oval ob a = Some VNone -> oref (ob_put_val ob a None) x = oref ob x.
+Proof.
+  intros. unfold oref. destruct (Nat.eq_dec a x) as [->|N].
+  - rewrite H. unfold oval, ob_put_val, ob_set_vals. cbn [o_vals]. destruct (lt_dec x (length (o_vals ob))).
+    + rewrite nth_upd_nth_same by assumption. reflexivity.
+    + rewrite upd_nth_overflow by lia. unfold oval in H. rewrite H. reflexivity.
+  - rewrite oval_put_other by assumption. reflexivity.
+Qed.
+
+Lemma after_insert_vals_rel : forall ob, o_sets (after_insert_vals sch ob) = o_sets ob /\ forall x, oref (after_insert_vals sch ob) x = oref ob x.
+Proof.
+  intros. unfold after_insert_vals. generalize (seq O (nattrs sch (o_ent ob))). intro l.
+  set (step := fun acc a => if attr_is_set sch (o_ent ob) a then acc
+                            else match oval acc a with
+                                 | Some VNone => ob_put_dbval (ob_put_val acc a None) a None
+                                 | Some v => ob_put_dbval acc a (Some v)
+                                 | None => acc end).
+  assert (ST : forall acc a, o_sets (step acc a) = o_sets acc /\ forall x, oref (step acc a) x = oref acc x).
+  { intros acc a. unfold step. destruct (attr_is_set sch (o_ent ob) a). auto.
+    destruct (oval acc a) as [v|] eqn:OV; [|auto]. destruct v; try (split; auto; fail).
+    split. reflexivity. intros x. change (oref (ob_put_dbval (ob_put_val acc a None) a None) x) with (oref (ob_put_val acc a None) x).
+    apply oref_put_none. exact OV. }
+  assert (H : forall acc, o_sets (fold_left step l acc) = o_sets acc /\ forall x, oref (fold_left step l acc) x = oref acc x).
+  { induction l as [|a l IH]; intros acc; cbn [fold_left]. auto.
+    destruct (IH (step acc a)) as (A & B). destruct (ST acc a) as (A1 & B1). split. congruence. intros x. rewrite B. apply B1. }
+  apply H.
+Qed.
+
+Lemma Pkr_save_updated : forall s o, Pkr sch s -> Pkr sch (out_state (save_updated sch s o)).
+Proof.
+  intros s o P. pose proof (Pk_save_updated sch s o (Pkr_Pk sch s P)) as PK. unfold save_updated in *.
+  destruct (get_obj s o) as [ob|] eqn:G; [|exact P].
+  destruct (status_eqb (o_st ob) SModified) eqn:ST; cbn [negb] in *; [|apply Pkr_dirty; discriminate].
+  match goal with |- context [if ?c then _ else _] => destruct c end. exact P.
+  assert (RF : forall s1, get_obj s1 o = Some ob ->
+     rframe sch s1 (upd_obj s1 o (fun ob2 => ob_set_wbits (ob_set_st (after_update_vals sch ob2) SUpdated) (repeat false (nattrs sch (o_ent ob)))))).
+  { intros s1 G1. apply rframe_upd_obj. intros ob2 G2. rewrite G1 in G2. inversion G2; subst ob2.
+    destruct (after_update_vals_same sch ob) as (A & B & C & D). pose proof (after_update_vals_sets ob) as E.
+    unfold robj_eq. cbn [o_ent o_st o_sets ob_set_wbits ob_set_st]. rewrite A, E. split; [reflexivity|]. split.
+    { apply status_eqb_eq in ST. rewrite ST. reflexivity. } split; [reflexivity|]. split.
+    - intros x t r _. unfold oref, oval. cbn [o_vals ob_set_wbits ob_set_st]. rewrite D. reflexivity.
+    - intros r y. unfold oitems, oset. cbn [o_sets ob_set_wbits ob_set_st]. rewrite E. tauto. }
+  destruct (written_asg sch s ob) as [|p l] eqn:W.
+  - cbn [out_state] in *. eapply rframe_Pkr; [apply RF; exact G | exact PK | exact P].
+  - destruct (o_pk ob) as [pk|]; [|exact P].
+    destruct (db_update sch (s_db s) (o_ent ob) pk (p :: l)) as [er|d'].
+    + destruct er; exact P.
+    + cbn [out_state] in *. eapply rframe_Pkr; [| exact PK | exact P].
+      eapply rframe_trans. apply (rframe_fields sch s (set_db s d')); reflexivity. apply RF. exact G.
+Qed.
+
+Lemma Pkr_save_deleted : forall s o, Pkr sch s -> Pkr sch (out_state (save_deleted sch s o)).
+Proof.
+  intros s o P. pose proof (Pk_save_deleted sch s o (Pkr_Pk sch s P)) as PK. unfold save_deleted in *.
+  destruct (get_obj s o) as [ob|] eqn:G; [|exact P].
+  destruct (status_eqb (o_st ob) SMarked) eqn:ST; cbn [negb out_state] in *; [|apply Pkr_dirty; discriminate].
+  apply status_eqb_eq in ST.
+  destruct (o_pk ob) as [pk|]; [|exact P].
+  remember (db_delete sch (s_db s) (o_ent ob) pk) as dd eqn:DDel. clear DDel. destruct dd as [er|d']; cbn [out_state] in *. exact P.
+  eapply rframe_Pkr; [| exact PK | exact P].
+  eapply rframe_trans. apply (rframe_fields sch s (set_db s d')); reflexivity.
+  eapply rframe_trans; [|apply rframe_fields; reflexivity].
+  apply rframe_upd_obj. intros ob2 G2. change (get_obj (set_db s d') o) with (get_obj s o) in G2. rewrite G in G2. inversion G2; subst ob2.
+  apply robj_eq_st. rewrite ST. reflexivity.
+Qed.
+
+Lemma Pkr_save_created : forall s o, Pkr sch s -> Pkr sch (out_state (save_created sch s o)).
+Proof.
+  intros s o P. pose proof (Pk_save_created sch s o (Pkr_Pk sch s P)) as PK. unfold save_created in *.
+  destruct (get_obj s o) as [ob|] eqn:G; [|exact P].
+  destruct (status_eqb (o_st ob) SCreated) eqn:ST; cbn [negb out_state] in *; [|apply Pkr_dirty; discriminate].
+  apply status_eqb_eq in ST.
+  remember (db_insert sch (s_db s) (o_ent ob) (o_pk ob) (row_of_obj sch s ob)) as di eqn:DI. clear DI.
+  destruct di as [er|[d' newpk]]. { destruct er; exact P. }
+  set (F := fun ob2 => after_insert_vals sch (ob_set_wbits (ob_set_st (ob_set_pk ob2 (Some newpk)) SInserted) (repeat false (nattrs sch (o_ent ob))))) in *.
+  assert (RF : forall s1, s_objs s1 = s_objs s -> s_dirty s1 = s_dirty s -> rframe sch s (upd_obj s1 o F)).
+  { intros s1 O1 D1. eapply rframe_trans. apply (rframe_fields sch s s1); auto.
+    apply rframe_upd_obj. intros ob2 G2. unfold get_obj in G2. rewrite O1 in G2. fold (get_obj s o) in G2. rewrite G in G2. inversion G2; subst ob2.
+    unfold F. destruct (after_insert_vals_props sch (ob_set_wbits (ob_set_st (ob_set_pk ob (Some newpk)) SInserted) (repeat false (nattrs sch (o_ent ob))))) as (A & B & _).
+    destruct (after_insert_vals_rel (ob_set_wbits (ob_set_st (ob_set_pk ob (Some newpk)) SInserted) (repeat false (nattrs sch (o_ent ob))))) as (C & D).
+    unfold robj_eq. rewrite A, B, C. cbn [o_ent o_st o_sets ob_set_wbits ob_set_st ob_set_pk]. split; [reflexivity|]. split.
+    { rewrite ST. reflexivity. } split; [reflexivity|]. split.
+    - intros x t r _. rewrite D. reflexivity.
+    - intros r y. unfold oitems, oset. rewrite C. cbn [o_sets ob_set_wbits ob_set_st ob_set_pk]. tauto. }
+  destruct (o_pk ob) as [z|].
+  - cbn [out_state] in *. eapply rframe_Pkr; [apply RF; reflexivity | exact PK | exact P].
+  - destruct (idx_get (set_db s d') (o_ent ob) O (VInt newpk)) as [o2|].
+    + destruct (Nat.eqb o2 o); cbn [out_state] in *; [|apply Pkr_dirty; discriminate].
+      eapply rframe_Pkr; [apply RF; reflexivity | exact PK | exact P].
+    + cbn [out_state] in *. eapply rframe_Pkr; [apply RF; reflexivity | exact PK | exact P].
+Qed.
+
+Lemma Pkr_save_principals : forall rec ob l s,
+  (forall s p, Pkr sch s -> Pkr sch (out_state (rec s p))) -> Pkr sch s -> Pkr sch (out_state (save_principals rec ob s l)).
+Proof.
+  intros rec ob l. induction l as [|a l IH]; intros s R P; simpl. exact P.
+  destruct (oval ob a) as [[| | |p]|]; try (apply IH; auto; fail).
+  destruct (status_eqb (obj_st s p) SCreated); [|apply IH; auto].
+  pose proof (R s p P) as P1. destruct (rec s p) as [s1 u|s1 er]; [|exact P1]. apply IH; auto.
+Qed.
+
+Lemma Pkr_save_obj : forall fuel s o deps, Pkr sch s -> Pkr sch (out_state (save_obj fuel sch s o deps)).
+Proof.
+  intros fuel. induction fuel as [|f IH]; intros s o deps P; simpl. exact P.
+  destruct (get_obj s o) as [ob|] eqn:G; [|exact P].
+  match goal with |- context [match ?r0 with Ok _ _ => _ | Err _ _ => _ end] => set (r := r0) end.
+  assert (P0 : Pkr sch (out_state r)).
+  { unfold r. destruct (status_eqb (o_st ob) SCreated || status_eqb (o_st ob) SModified); [|exact P].
+    destruct (mem_nat o deps). exact P. apply Pkr_save_principals; auto. }
+  destruct r as [s1 u|s1 er]; [|exact P0]. cbn [out_state] in P0.
+  match goal with |- context [match ?r1 with Ok _ _ => _ | Err _ _ => _ end] => set (r2 := r1) end.
+  assert (P1 : Pkr sch (out_state r2)).
+  { unfold r2. destruct (o_st ob); try exact P0. apply Pkr_save_created; auto. apply Pkr_save_updated; auto. apply Pkr_save_deleted; auto. }
+  destruct r2 as [s2 u2|s2 er]; [|exact P1]. cbn [out_state] in *.
+  eapply Pkr_fields; [reflexivity|reflexivity|reflexivity|].
+  eapply Fr_Pkr; [|exact P1]. eapply Fr_trans. apply Fr_unqueue. apply Fr_upd_obj. intros. split. apply kobj_eq_pos. apply robj_eq_pos.
+Qed.
+
+Lemma Pkr_flush_loop : forall l s, Pkr sch s -> Pkr sch (out_state (flush_loop sch s l)).
+Proof.
+  intros l. induction l as [|i l IH]; intros s P; cbn [flush_loop]. exact P.
+  destruct (nth i (s_tosave s) None) as [o|]; [|apply IH; auto].
+  pose proof (Pkr_save_obj (S (length (s_objs s))) s o [] P) as P1.
+  remember (save_obj (S (length (s_objs s))) sch s o []) as r eqn:R. clear R.
+  destruct r as [s1 u|s1 er]; [|exact P1]. apply IH; auto.
+Qed.
+
+Lemma Pkr_flush : forall s, Pkr sch s -> Pkr sch (out_state (flush sch s)).
+Proof.
+  intros s P. unfold flush. destruct (s_savedpend s). exact P. destruct (negb (s_modified s)). exact P.
+  match goal with |- context [if ?c then _ else _] => destruct c end. exact P.
+  assert (P0 : Pkr sch (calc_modcoll s)) by (eapply Fr_Pkr; eauto; apply Fr_calc_modcoll).
+  pose proof (Pkr_flush_loop (seq O (length (s_tosave (calc_modcoll s)))) (calc_modcoll s) P0) as P1.
+  destruct (flush_loop sch (calc_modcoll s) (seq 0 (length (s_tosave (calc_modcoll s))))) as [s2 u|s2 er]; exact P1.
+Qed.
+
+Lemma Pkr_auto_flush : forall s, Pkr sch s -> Pkr sch (out_state (auto_flush sch s)).
+Proof. intros. unfold auto_flush. destruct (s_modified s). apply Pkr_flush; auto. exact H. Qed.
+End RelFlush.
+
+(* ---------------------------------------------------------------- collections and deletion *)
+
+Section RelColl.
+Variable sch : schema.
+Hypothesis WF : wf_schema sch = true.
+
+Lemma not_del_vex : forall s i, is_del (obj_st s i) = false -> vex s i = true.
+Proof. intros s i H. unfold obj_st, vex in *. destruct (get_obj s i); auto. Qed.
+
+Lemma Pkr_fold_items : forall (f : sess -> oid -> sess) l s,
+  (forall s i, Pkr sch s -> vex s i = true -> is_del (obj_st s i) = false -> Pkr sch (f s i)) ->
+  (forall s i, is_del (obj_st s i) = false -> kframe sch s (f s i)) ->
+  Pkr sch s -> any_del s l = false -> Pkr sch (fold_left f l s).
+Proof.
+  intros f l. induction l as [|i l IH]; intros s HP HK P D; simpl. exact P.
+  unfold any_del in D. simpl in D. apply orb_false_iff in D. destruct D as [D1 D2].
+  pose proof (HK s i D1) as F. apply IH; auto. apply HP; auto. apply not_del_vex; auto.
+  unfold any_del. rewrite <- D2. apply existsb_ext_eq. intros x. apply (kframe_is_del sch s (f s i) x F).
+Qed.
+
+Lemma Pkr_fold_out : forall A (f : sess -> A -> out unit) l s,
+  (forall s x, Pkr sch s -> Pkr sch (out_state (f s x))) -> Pkr sch s -> Pkr sch (out_state (fold_out f s l)).
+Proof.
+  intros A f l. induction l as [|x l IH]; intros s H P; simpl. exact P.
+  pose proof (H s x P) as P1. destruct (f s x) as [s1 u|s1 er]; [|exact P1]. apply IH; auto.
+Qed.
+
+Lemma Fr_put_sd_members : forall s o a sd, (forall y, In y (sd_items sd) <-> In y (sd_items (get_sd s o a))) -> Fr sch s (put_sd s o a sd).
+Proof.
+  intros. apply Fr_put_sd_same. intros y. rewrite (H y). unfold get_sd, vitems, coll_items.
+  destruct (get_obj s o) as [ob|]; simpl. destruct (oset ob a); simpl; tauto. tauto.
+Qed.
+
+Lemma dirty_final_sd : forall s o a sd b, s_dirty (set_modified (modcoll_add (put_sd s o a sd) o a) b) = s_dirty s.
+Proof.
+  intros. cbn [s_dirty set_modified]. unfold modcoll_add. destruct (existsb _ _); cbn [s_dirty set_modcoll]; unfold put_sd; apply upd_obj_dirty.
+Qed.
+
+Lemma Pkr_coll_add : forall s o a items, Pkr sch s -> Pkr sch (out_state (coll_add sch s o a items)).
+Proof.
+  intros s o a items P. unfold coll_add. destruct items as [|i0 items0]. exact P.
+  set (items := i0 :: items0). set (items1 := if has_sd s o a then diff_nat items (sd_items (get_sd s o a)) else items).
+  match goal with |- context [match ?r0 with Ok _ _ => _ | Err _ _ => _ end] => set (r := r0) end.
+  assert (P0 : Pkr sch (out_state r)).
+  { unfold r. destruct (has_sd s o a && coll_full s o a). exact P. apply Pkr_coll_load_items; auto. }
+  destruct r as [s1 u|s1 er]; [|exact P0]. cbn [out_state] in P0.
+  destruct (any_del s1 (diff_nat items1 (sd_items (get_sd s1 o a)))) eqn:AD. exact P0.
+  destruct (set_info sch (obj_ent s1 o) a) as [[t r_]|]; [|exact P0].
+  set (items2 := diff_nat items1 (sd_items (get_sd s1 o a))) in *.
+  assert (P2 : Pkr sch (fold_left (fun acc i => item_link sch acc o a r_ i) items2 (note_order s1 items2))).
+  { apply Pkr_fold_items.
+    - intros. apply Pkr_item_link; auto.
+    - intros. apply kframe_item_link; auto.
+    - eapply Fr_Pkr; [apply Fr_note_order|exact P0].
+    - rewrite (any_del_kframe sch s1 (note_order s1 items2) items2 (kframe_note_order sch oid s1 items2)). exact AD. }
+  set (s2 := fold_left (fun acc i => item_link sch acc o a r_ i) items2 (note_order s1 items2)) in *.
+  destruct (Nat.eqb (s_dirty s2) O && negb (subset_nat items2 (sd_items (get_sd s2 o a)))) eqn:CND. { simpl. apply Pkr_dirty. discriminate. }
+  apply andb_false_iff in CND. destruct CND as [DZ|SUB].
+  { left. cbn [out_state]. rewrite dirty_final_sd. apply Nat.eqb_neq in DZ. exact DZ. }
+  apply negb_false_iff in SUB.
+  cbn [out_state]. eapply Pkr_fields; [reflexivity|reflexivity|reflexivity|].
+  eapply Fr_Pkr; [|exact P2]. eapply Fr_trans; [|apply Fr_modcoll_add].
+  apply Fr_put_sd_members. intros y. unfold bookkeeping_add. cbn [sd_items]. rewrite In_union_nat.
+  rewrite subset_nat_spec in SUB. split; [intros [H|H]; auto|auto].
+Qed.
+
+Lemma Pkr_coll_nonzero : forall s o a, Pkr sch s -> Pkr sch (out_state (coll_nonzero sch s o a)).
+Proof.
+  intros s o a P. unfold coll_nonzero.
+  match goal with |- context [match ?r0 with Ok _ _ => _ | Err _ _ => _ end] => set (r := r0) end.
+  assert (P0 : Pkr sch (out_state r)). { unfold r. destruct (has_sd s o a). exact P. apply Pkr_coll_load_noflush; auto. }
+  destruct r as [s1 u|s1 er]; [|exact P0]. cbn [out_state] in P0.
+  destruct (sd_items (get_sd s1 o a)). 2: exact P0.
+  destruct (coll_full s1 o a). exact P0.
+  pose proof (Pkr_coll_load_noflush sch WF s1 o a P0) as P1. destruct (coll_load_noflush sch s1 o a); exact P1.
+Qed.
+
+Lemma has_sd_false_items : forall s o a, has_sd s o a = false -> sd_items (get_sd s o a) = [].
+Proof. intros. unfold has_sd, get_sd in *. destruct (get_obj s o) as [ob|]; auto. destruct (oset ob a); auto. discriminate. Qed.
+
+Lemma any_del_split : forall s l, any_del s l = false -> forall i, In i l -> is_del (obj_st s i) = false.
+Proof.
+  intros s l H i I. unfold any_del in H. destruct (is_del (obj_st s i)) eqn:D; auto.
+  assert (existsb (fun i0 => is_del (obj_st s i0)) l = true) by (apply existsb_exists; exists i; auto). congruence.
+Qed.
+
+Lemma Pkr_coll_assign_gen : forall del s o a items,
+  (forall s x, Pkr sch s -> Pkr sch (out_state (del s x))) ->
+  Pkr sch s -> Pkr sch (out_state (coll_assign_gen del sch s o a items)).
+Proof.
+  intros del s o a items DEL P. unfold coll_assign_gen.
+  match goal with |- context [match ?r0 with Ok _ _ => _ | Err _ _ => _ end] => set (r := r0) end.
+  assert (P0 : Pkr sch (out_state r)).
+  { unfold r. destruct (has_sd s o a) eqn:HS.
+    - destruct (coll_full s o a). exact P. apply Pkr_coll_load_noflush; auto.
+    - destruct (status_eqb (obj_st s o) SCreated). 2: apply Pkr_coll_load_noflush; auto.
+      simpl. eapply Fr_Pkr; [|exact P]. apply Fr_put_sd_members. intros y. rewrite (has_sd_false_items s o a HS). simpl. tauto. }
+  destruct r as [s1 u|s1 er]; [|exact P0]. cbn [out_state] in P0.
+  destruct (seteq_nat items (sd_items (get_sd s1 o a))). exact P0.
+  set (to_add := diff_nat items (sd_items (get_sd s1 o a))). set (to_remove := diff_nat (sd_items (get_sd s1 o a)) items).
+  destruct (any_del s1 to_add) eqn:AD.
+  { destruct (set_cascade sch (obj_ent s1 o) a && match to_remove with [] => false | _ => true end); simpl.
+    apply Pkr_dirty_keep. exact P0. exact P0. }
+  destruct (set_info sch (obj_ent s1 o) a) as [[t r_]|]; [|exact P0].
+  set (s1' := note_order (note_order s1 to_remove) to_add).
+  assert (F1 : Fr sch s1 s1') by (unfold s1'; eapply Fr_trans; apply Fr_note_order).
+  pose proof (Fr_Pkr sch _ _ F1 P0) as P1.
+  destruct (negb (set_cascade sch (obj_ent s1 o) a) && any_del s1 to_remove) eqn:AR. simpl. apply Pkr_dirty. discriminate.
+  match goal with |- context [match ?r0 with Ok _ _ => _ | Err _ _ => _ end] => set (r2 := r0) end.
+  assert (P2 : Pkr sch (out_state r2)).
+  { unfold r2. destruct (set_cascade sch (obj_ent s1 o) a) eqn:SC.
+    - apply Pkr_fold_out; auto.
+    - simpl in AR. cbn [out_state]. apply Pkr_fold_items; auto.
+      + intros. apply Pkr_unlink_item; auto.
+      + intros. apply kframe_ref_set_rev; auto.
+      + rewrite (any_del_kframe sch s1 s1' to_remove (proj1 F1)). exact AR. }
+  destruct r2 as [s2 u2|s2 er]; [|exact P2]. cbn [out_state] in P2.
+  destruct (any_del s2 to_add) eqn:AD2. simpl. apply Pkr_dirty. discriminate.
+  assert (P3 : Pkr sch (fold_left (fun acc i => item_link sch acc o a r_ i) to_add s2)).
+  { apply Pkr_fold_items; auto. intros. apply Pkr_item_link; auto. intros. apply kframe_item_link; auto. }
+  set (s3 := fold_left (fun acc i => item_link sch acc o a r_ i) to_add s2) in *.
+  destruct (Nat.eqb (s_dirty s3) O && negb (seteq_nat (sd_items (get_sd s3 o a)) items)) eqn:CND. { simpl. apply Pkr_dirty. discriminate. }
+  apply andb_false_iff in CND. destruct CND as [DZ|SEQ].
+  { left. cbn [out_state]. rewrite dirty_final_sd. apply Nat.eqb_neq in DZ. exact DZ. }
+  apply negb_false_iff in SEQ.
+  cbn [out_state]. eapply Pkr_fields; [reflexivity|reflexivity|reflexivity|].
+  eapply Fr_Pkr; [|exact P3]. eapply Fr_trans; [|apply Fr_modcoll_add].
+  apply Fr_put_sd_members. rewrite seteq_nat_spec in SEQ. intros y.
+  match goal with |- In y (sd_items ?X) <-> _ => assert (EI : sd_items X = items) end.
+  { destruct to_remove; destruct to_add; reflexivity. }
+  rewrite EI. symmetry. apply SEQ.
+Qed.
+
+Lemma Pkr_coll_remove_gen : forall del s o a items,
+  (forall s x, Pkr sch s -> Pkr sch (out_state (del s x))) ->
+  Pkr sch s -> Pkr sch (out_state (coll_remove_gen del sch s o a items)).
+Proof.
+  intros del s o a items DEL P. unfold coll_remove_gen.
+  set (items0 := if has_sd s o a then diff_nat items (sd_removed (get_sd s o a)) else items).
+  destruct items0 as [|i0 it0] eqn:I0. exact P. rewrite <- I0. clear I0.
+  match goal with |- context [match ?r0 with Ok _ _ => _ | Err _ _ => _ end] => set (r := r0) end.
+  assert (P0 : Pkr sch (out_state r)).
+  { unfold r. destruct (has_sd s o a && coll_full s o a). exact P. apply Pkr_coll_load_items; auto. }
+  destruct r as [s1 u|s1 er]; [|exact P0]. cbn [out_state] in P0.
+  set (items1 := inter_nat items0 (sd_items (get_sd s1 o a))).
+  destruct (set_info sch (obj_ent s1 o) a) as [[t r_]|]; [|exact P0].
+  set (s1' := note_order s1 items1).
+  assert (F1 : Fr sch s1 s1') by (apply Fr_note_order).
+  pose proof (Fr_Pkr sch _ _ F1 P0) as P1.
+  destruct (negb (set_cascade sch (obj_ent s1 o) a) && any_del s1 items1) eqn:AR. simpl. apply Pkr_dirty. discriminate.
+  match goal with |- context [match ?r0 with Ok _ _ => _ | Err _ _ => _ end] => set (r2 := r0) end.
+  assert (P2 : Pkr sch (out_state r2)).
+  { unfold r2. destruct (set_cascade sch (obj_ent s1 o) a) eqn:SC.
+    - apply Pkr_fold_out; auto.
+    - simpl in AR. cbn [out_state]. apply Pkr_fold_items; auto.
+      + intros. apply Pkr_unlink_item; auto.
+      + intros. apply kframe_ref_set_rev; auto.
+      + rewrite (any_del_kframe sch s1 s1' items1 (proj1 F1)). exact AR. }
+  destruct r2 as [s2 u2|s2 er]; [|exact P2]. cbn [out_state] in P2.
+  destruct (Nat.eqb (s_dirty s2) O && existsb (fun i => mem_nat i (sd_items (get_sd s2 o a))) items1) eqn:CND. { simpl. apply Pkr_dirty. discriminate. }
+  apply andb_false_iff in CND. destruct CND as [DZ|EXB].
+  { left. cbn [out_state]. rewrite dirty_final_sd. apply Nat.eqb_neq in DZ. exact DZ. }
+  cbn [out_state]. eapply Pkr_fields; [reflexivity|reflexivity|reflexivity|].
+  eapply Fr_Pkr; [|exact P2]. eapply Fr_trans; [|apply Fr_modcoll_add].
+  apply Fr_put_sd_members. intros y. unfold bookkeeping_remove. cbn [sd_items]. rewrite In_diff_nat. split; [tauto|].
+  intros H. split; auto. intro I. assert (existsb (fun i => mem_nat i (sd_items (get_sd s2 o a))) items1 = true).
+  { apply existsb_exists. exists y. split; auto. apply mem_nat_In. exact H. } congruence.
+Qed.
+(* the unlinking half of Entity._delete_ *)
+Lemma del_unlink_views : forall l s o e,
+  let s' := del_unlink sch s o e l in
+  vsame1 s s' /\ (forall o' a, vref s' o' a = vref s o' a) /\
+  (forall w r' y, In y (vitems s' w r') <->
+     In y (vitems s w r') /\ ~ (y = o /\ exists a t, In a l /\ ref_info sch e a = Some (t, r') /\ vref s o a = Some w)).
+Proof.
+  induction l as [|a l IH]; intros s o e; cbn zeta.
+  - unfold del_unlink. simpl. split; [apply vsame1_refl|]. split; [reflexivity|]. intros w r' y. split; [intro H; split; auto; intros [_ (a & t & [] & _)]|tauto].
+  - unfold del_unlink. simpl. fold (del_unlink sch).
+    set (s1 := match ref_info sch e a, obj_val s o a with Some (_, r_), Some (VRef x) => rev_remove s x r_ o | _, _ => s end).
+    change (fold_left _ l s1) with (del_unlink sch s1 o e l).
+    assert (ST : vsame1 s s1 /\ (forall o' a', vref s1 o' a' = vref s o' a') /\
+                 (forall w r' y, In y (vitems s1 w r') <-> In y (vitems s w r') /\ ~ (y = o /\ exists t, ref_info sch e a = Some (t, r') /\ vref s o a = Some w))).
+    { unfold s1. destruct (ref_info sch e a) as [[t r_]|] eqn:RI.
+      - destruct (obj_val s o a) as [[| | |x]|] eqn:OV;
+          try (split; [apply vsame1_refl|]; split; [reflexivity|]; intros w r' y; split; [intro H; split; auto; intros [_ (t0 & _ & V)]; unfold vref in V; rewrite OV in V; discriminate | tauto]).
+        destruct (rev_remove_removes s x r_ o) as (A & B & C). split; [exact A|]. split; [exact B|].
+        intros w r' y. rewrite C. destruct (Nat.eqb w x && Nat.eqb r' r_) eqn:E.
+        + apply andb_true_iff in E. destruct E as [E1 E2]. apply Nat.eqb_eq in E1, E2. subst w r'. split.
+          * intros [H N]. split; auto. intros [Y _]. contradiction.
+          * intros [H N]. split; auto. intro Y. apply N. split; auto. exists t. split; auto. unfold vref. rewrite OV. reflexivity.
+        + split. intro H. split; auto. intros [Y (t0 & R0 & V)]. unfold vref in V. rewrite OV in V. inversion V; subst w.
+          assert (r' = r_) by congruence. subst r'. rewrite !Nat.eqb_refl in E. discriminate. tauto.
+      - split; [apply vsame1_refl|]. split; [reflexivity|]. intros w r' y. split; [intro H; split; auto; intros [_ (t0 & R0 & _)]; discriminate | tauto]. }
+    destruct ST as (A1 & A2 & A3). destruct (IH s1 o e) as (B1 & B2 & B3). cbn zeta in B1, B2, B3.
+    split; [eapply vsame1_trans; eauto|]. split; [intros; rewrite B2; apply A2|].
+    intros w r' y. rewrite B3. rewrite A3. split.
+    + intros [[H N1] N2]. split; auto. intros [Y (a0 & t & [I|I] & RI & V)].
+      * subst a0. apply N1. split; auto. exists t. auto.
+      * apply N2. split; auto. exists a0, t. split; auto. split; auto. rewrite A2. exact V.
+    + intros [H N]. split; [split; auto|].
+      * intros [Y (t & RI & V)]. apply N. split; auto. exists a, t. split; [left; reflexivity|auto].
+      * intros [Y (a0 & t & I & RI & V)]. apply N. split; auto. exists a0, t. split; [right; exact I|]. split; auto. rewrite <- A2. exact V.
+Qed.
+Lemma Inv_rel_delete : forall s1 s' o,
+  Inv_rel sch s1 -> vex s1 o = true ->
+  let e := vent s1 o in
+  let s2 := del_unlink sch s1 o e (seq O (nattrs sch e)) in
+  (forall o', vex s' o' = vex s2 o' /\ vent s' o' = vent s2 o' /\ vlive s' o' = (if Nat.eqb o' o then false else vlive s2 o') /\
+              (forall a, vref s' o' a = vref s2 o' a) /\ (forall r y, In y (vitems s' o' r) <-> In y (vitems s2 o' r))) ->
+  Inv_rel sch s'.
+Proof.
+  intros s1 s' o (R0 & R1 & R2) EXO e s2 V.
+  destruct (del_unlink_views (seq O (nattrs sch e)) s1 o e) as (U1 & U2 & U3). fold s2 in U1, U2, U3.
+  unfold Inv_rel, is_ref_of in *. split; [|split].
+  - intros b a t r x EX RI VR. destruct (V b) as (A & B & C & D & E). destruct (U1 b) as (A1 & _ & B1 & _).
+    rewrite A, A1 in EX. rewrite B, B1 in RI. rewrite D, U2 in VR.
+    destruct (R0 b a t r x EX RI VR) as [X1 X2]. destruct (V x) as (A' & B' & _). destruct (U1 x) as (A1' & _ & B1' & _).
+    rewrite A', A1', B', B1'. auto.
+  - intros b a t r x LV RI VR. destruct (V b) as (A & B & C & D & E). destruct (U1 b) as (A1 & L1 & B1 & _).
+    rewrite C in LV. destruct (Nat.eqb b o) eqn:BO; try discriminate. apply Nat.eqb_neq in BO.
+    rewrite L1 in LV. rewrite B, B1 in RI. rewrite D, U2 in VR.
+    destruct (V x) as (_ & _ & _ & _ & E'). apply E'. apply U3. split. eapply R1; eauto. intros [Y _]. contradiction.
+  - intros x r b M. destruct (V x) as (_ & _ & _ & _ & E'). apply E' in M. apply U3 in M. destruct M as [M N].
+    destruct (R2 x r b M) as [LV (a & t & RI & VR)].
+    assert (BO : b <> o).
+    { intro Y. subst b. apply N. split; auto. exists a, t. split; [|split; auto].
+      apply in_seq. pose proof (ref_info_lt sch _ _ _ RI). fold e in H. lia. }
+    destruct (V b) as (A & B & C & D & E). destruct (U1 b) as (A1 & L1 & B1 & _).
+    split. rewrite C. apply Nat.eqb_neq in BO. rewrite BO. congruence.
+    exists a, t. rewrite B, B1, D, U2. auto.
+Qed.
+
+Lemma Pkr_delete_tail : forall s1 o ob, Pkr sch s1 -> is_del (o_st ob) = false -> Pkr sch (out_state (delete_tail sch s1 o ob)).
+Proof.
+  intros s1 o ob P ND. pose proof (Pk_delete_tail sch s1 o ob (Pkr_Pk sch s1 P) ND) as PK. unfold delete_tail in *.
+  destruct (get_obj s1 o) as [ob1|] eqn:G1; [|exact P].
+  destruct (negb (status_eqb (o_st ob1) (o_st ob)) || negb (Nat.eqb (o_ent ob1) (o_ent ob))) eqn:CHK. exact P.
+  set (e := o_ent ob1) in *. set (attrs := seq O (nattrs sch e)) in *.
+  set (s2 := del_unlink sch s1 o e attrs) in *. set (s3 := del_keys sch s2 o e attrs) in *.
+  destruct (del_keys_objs sch attrs s2 o e) as [OBJ3 DIRTY3]. fold s3 in OBJ3, DIRTY3.
+  destruct (kframe_del_unlink sch attrs s1 o e) as (_ & DIRTY2 & _). fold s2 in DIRTY2.
+  destruct P as [D|(I & SH & SS & R)].
+  { left. destruct (status_eqb (o_st ob1) SCreated); cbn [out_state].
+    - destruct (o_pk ob1); rewrite ?idx_del_dirty, upd_obj_dirty, unqueue_dirty; congruence.
+    - rewrite queue_dirty, upd_obj_dirty. destruct (status_eqb (o_st ob1) SModified); rewrite ?unqueue_dirty; congruence. }
+  apply Pkr_of_parts; auto. intros CLEAN.
+  assert (EXO : vex s1 o = true) by (unfold vex; rewrite G1; reflexivity).
+  assert (EV : e = vent s1 o) by (unfold e, vent, obj_ent; rewrite G1; reflexivity).
+  (* views of a state whose objects are those of s3 except that o got a deleted status *)
+  assert (KILL : forall s' (g : obj -> obj),
+            (forall x, o_ent (g x) = o_ent x /\ o_vals (g x) = o_vals x /\ o_sets (g x) = o_sets x /\ is_del (o_st (g x)) = true) ->
+            (forall o', get_obj s' o' = if Nat.eqb o' o then option_map g (get_obj s3 o) else get_obj s3 o') ->
+            Inv_sshape sch s' /\ Inv_rel sch s').
+  { intros s' g HG GO.
+    assert (G32 : forall o', get_obj s3 o' = get_obj s2 o') by (intros; unfold get_obj; rewrite OBJ3; reflexivity).
+    assert (VW : forall o', vex s' o' = vex s2 o' /\ vent s' o' = vent s2 o' /\ vslen s' o' = vslen s2 o' /\ vlive s' o' = (if Nat.eqb o' o then false else vlive s2 o') /\
+                 (forall a, vref s' o' a = vref s2 o' a) /\ (forall r, vitems s' o' r = vitems s2 o' r)).
+    { intros o'. unfold vex, vent, vslen, vlive, vref, vitems, obj_ent, obj_val, coll_items. rewrite GO. destruct (Nat.eqb o' o) eqn:E.
+      - apply Nat.eqb_eq in E. subst o'. rewrite G32. destruct (get_obj s2 o) as [x|]; simpl; [|repeat split; auto].
+        destruct (HG x) as (A & B & C & D). rewrite A, D. unfold oval, oset. rewrite B, C. repeat split; auto.
+      - rewrite G32. repeat split; auto. }
+    split.
+    - intros o' ob' G'. destruct (VW o') as (A & B & C & _). unfold vex, vent, vslen, obj_ent in *. rewrite G' in *.
+      destruct (get_obj s2 o') as [x|] eqn:G2; try discriminate.
+      pose proof (rframe_sshape sch s1 s2) as RS. rewrite C, B. 
+      assert (SS2 : Inv_sshape sch s2).
+      { apply (vsame1_sshape sch s1 s2); auto. apply (del_unlink_views attrs s1 o e). }
+      apply (SS2 o' x G2).
+    - pose proof (Inv_rel_delete s1 s' o R EXO) as IRD. cbv zeta in IRD. rewrite <- EV in IRD. apply IRD.
+      intros o'. destruct (VW o') as (A & B & C & D & E & F).
+      split; [exact A|]. split; [exact B|]. split; [exact D|]. split; [exact E|]. intros r y. rewrite F. tauto. }
+  destruct (status_eqb (o_st ob1) SCreated); cbn [out_state] in *.
+  - apply (KILL _ (fun x => ob_set_st (ob_set_pos x None) SCancelled)).
+    + intros x. auto.
+    + intros o'. replace (get_obj (match o_pk ob1 with Some pk => idx_del (upd_obj (unqueue_slot s3 (o_pos ob1)) o (fun x => ob_set_st (ob_set_pos x None) SCancelled)) e 0 (VInt pk) | None => upd_obj (unqueue_slot s3 (o_pos ob1)) o (fun x => ob_set_st (ob_set_pos x None) SCancelled) end) o')
+        with (get_obj (upd_obj (unqueue_slot s3 (o_pos ob1)) o (fun x => ob_set_st (ob_set_pos x None) SCancelled)) o') by (destruct (o_pk ob1); reflexivity).
+      rewrite get_upd_obj. rewrite (Nat.eqb_sym o' o).
+      assert (UQ : forall o2, get_obj (unqueue_slot s3 (o_pos ob1)) o2 = get_obj s3 o2) by (intros; unfold unqueue_slot; destruct (o_pos ob1); reflexivity).
+      rewrite !UQ. destruct (Nat.eqb o o') eqn:E; auto. apply Nat.eqb_eq in E. subst o'. reflexivity.
+  - set (s4 := if status_eqb (o_st ob1) SModified then unqueue_slot s3 (o_pos ob1) else s3) in *.
+    assert (O4 : forall o2, get_obj s4 o2 = get_obj s3 o2) by (intros; unfold s4, unqueue_slot; destruct (status_eqb (o_st ob1) SModified); try destruct (o_pos ob1); reflexivity).
+    set (s5 := upd_obj s4 o (fun x => ob_set_st x SMarked)) in *.
+    apply (KILL _ (fun x => ob_set_pos (ob_set_st x SMarked) (Some (length (s_tosave s5))))).
+    + intros x. auto.
+    + intros o'. unfold queue.
+      change (get_obj (set_modified (set_tosave (upd_obj s5 o (fun ob0 => ob_set_pos ob0 (Some (length (s_tosave s5))))) (s_tosave s5 ++ [Some o])) true) o')
+        with (get_obj (upd_obj s5 o (fun ob0 => ob_set_pos ob0 (Some (length (s_tosave s5))))) o').
+      rewrite get_upd_obj. rewrite (Nat.eqb_sym o' o).
+      assert (G5 : get_obj s5 o' = if Nat.eqb o o' then option_map (fun x => ob_set_st x SMarked) (get_obj s3 o') else get_obj s3 o').
+      { unfold s5. rewrite get_upd_obj. rewrite O4. reflexivity. }
+      rewrite G5. destruct (Nat.eqb o o') eqn:E; auto. apply Nat.eqb_eq in E. subst o'. destruct (get_obj s3 o); reflexivity.
+Qed.
+End RelColl.
+
+Section RelOps.
+Variable sch : schema.
+Hypothesis WF : wf_schema sch = true.
+
+Lemma Pkr_delete_obj : forall fuel s o, Pkr sch s -> Pkr sch (out_state (delete_obj fuel sch s o)).
+Proof.
+  induction fuel as [|f IH]; intros s o P; cbn [delete_obj]. exact P.
+  destruct (get_obj s o) as [ob|] eqn:G; [|exact P].
+  destruct (is_del (o_st ob)) eqn:ND. exact P.
+  match goal with |- context [match ?r0 with Ok _ _ => _ | Err _ _ => _ end] => set (r := r0) end.
+  assert (P0 : Pkr sch (out_state r)).
+  { unfold r. apply Pkr_fold_out; auto. intros s0 a P0.
+    destruct (attr_is_set sch (o_ent ob) a && Nat.ltb a (nattrs sch (o_ent ob))); [|exact P0].
+    pose proof (Pkr_coll_nonzero sch WF s0 o a P0) as P1. destruct (coll_nonzero sch s0 o a) as [s1 b|s1 er]; [|exact P1].
+    cbn [out_state] in P1. destruct b; [|exact P1].
+    destruct (set_cascade sch (o_ent ob) a).
+    - match goal with |- context [match ?r1 with Ok _ _ => _ | Err _ _ => _ end] => set (r2 := r1) end.
+      assert (P2 : Pkr sch (out_state r2)). { unfold r2. destruct (coll_full s1 o a). exact P1. apply Pkr_coll_load_noflush; auto. }
+      destruct r2 as [s2 u|s2 er]; [|exact P2]. cbn [out_state] in P2.
+      destruct (copy_assert_fails s2 o a). exact P2.
+      apply Pkr_fold_out; auto. eapply Fr_Pkr; [apply Fr_note_order|exact P2].
+    - apply Pkr_coll_assign_gen; auto. }
+  destruct r as [s1 u|s1 er]; [|exact P0]. cbn [out_state] in P0.
+  apply Pkr_delete_tail; auto.
+Qed.
+
+Lemma Pkr_coll_assign : forall s o a items, Pkr sch s -> Pkr sch (out_state (coll_assign sch s o a items)).
+Proof. intros. unfold coll_assign. apply Pkr_coll_assign_gen; auto. intros. apply Pkr_delete_obj; auto. Qed.
+Lemma Pkr_coll_remove : forall s o a items, Pkr sch s -> Pkr sch (out_state (coll_remove sch s o a items)).
+Proof. intros. unfold coll_remove. apply Pkr_coll_remove_gen; auto. intros. apply Pkr_delete_obj; auto. Qed.
+
+Lemma Pkr_handle_of : forall s o, Pkr sch s -> Pkr sch (fst (handle_of s o)).
+Proof. intros. unfold handle_of. destruct (index_of o (s_handles s) 0); simpl; auto. Qed.
+Lemma Pkr_handles_of : forall os s, Pkr sch s -> Pkr sch (fst (handles_of s os)).
+Proof.
+  induction os as [|o t IH]; intros s P; simpl. exact P.
+  pose proof (Pkr_handle_of s o P) as P1. destruct (handle_of s o) as [s1 h]. simpl in P1.
+  specialize (IH s1 P1). destruct (handles_of s1 t). exact IH.
+Qed.
+Lemma Pkr_objs_res : forall s os, Pkr sch s -> Pkr sch (fst (objs_res s os)).
+Proof.
+  intros. unfold objs_res. pose proof (Pkr_handles_of (sort_by (obj_le s) os) s H) as P1.
+  destruct (handles_of s (sort_by (obj_le s) os)). exact P1.
+Qed.
+
+Lemma Pkr_lift_unit : forall r, Pkr sch (out_state r) -> Pkr sch (fst (lift_unit r)).
+Proof. intros [s u|s er] H; exact H. Qed.
+
+(* a plain (non-key, non-reference) value *)
+Lemma Fr_put_plain_val : forall s o a v, attr_uniq sch (obj_ent s o) a = false -> ref_info sch (obj_ent s o) a = None ->
+  Fr sch s (upd_obj s o (fun ob => ob_put_val ob a v)).
+Proof.
+  intros. apply Fr_upd_obj. intros ob G. rewrite (obj_ent_get s o ob G) in *. split. apply kobj_eq_val; auto. apply robj_eq_val; auto.
+Qed.
+
+(* key_set changes a unique scalar attribute: invisible for the relationship views *)
+Lemma rframe_key_set : forall s o e a nv, attr_uniq sch e a = true -> rframe sch s (key_set s o e a nv).
+Proof.
+  intros s o e a nv U. unfold key_set. destruct (get_obj s o) as [ob|] eqn:G; [|apply rframe_refl].
+  destruct (is_del (o_st ob) || negb (Nat.eqb (o_ent ob) e)) eqn:GU. apply rframe_refl.
+  apply orb_false_iff in GU. destruct GU as [_ EE]. apply negb_false_iff in EE. apply Nat.eqb_eq in EE.
+  destruct (oval_eqb (oval ob a) (Some nv)). apply rframe_refl.
+  eapply rframe_trans; [|apply rframe_upd_obj].
+  - apply rframe_fields. destruct (oval ob a) as [ov|]; try destruct (is_vnone ov); destruct (is_vnone nv); reflexivity.
+    destruct (oval ob a) as [ov|]; try destruct (is_vnone ov); destruct (is_vnone nv); reflexivity.
+  - intros ob2 G2. apply robj_eq_val.
+    assert (get_obj s o = Some ob2).
+    { rewrite <- G2. destruct (oval ob a) as [ov|]; try destruct (is_vnone ov); destruct (is_vnone nv); reflexivity. }
+    rewrite G in H. inversion H; subst ob2. rewrite EE.
+    destruct (ref_info sch e a) as [p|] eqn:RI; auto. rewrite (wf_ref_not_uniq sch e a p WF RI) in U. discriminate.
+Qed.
+
+Lemma Pkr_key_set : forall s o e a nv,
+  Pkr sch s -> attr_uniq sch e a = true -> key_conflict s o e a nv = false -> Pkr sch (key_set s o e a nv).
+Proof.
+  intros. eapply rframe_Pkr; eauto. apply rframe_key_set; auto. apply Pk_key_set; auto. apply Pkr_Pk; auto.
+Qed.
+
+Lemma Pkr_key_set_checked : forall s o e a nv, Pkr sch s -> Pkr sch (key_set_checked sch s o e a nv).
+Proof.
+  intros. unfold key_set_checked. destruct (negb (attr_uniq sch e a) || key_conflict s o e a nv) eqn:C.
+  apply Pkr_dirty_keep. exact H. apply orb_false_iff in C. destruct C as [C1 C2]. apply negb_false_iff in C1.
+  apply Pkr_key_set; auto.
+Qed.
+
+Lemma kind_plain_info : forall e a at_, get_attr sch e a = Some at_ -> is_ref_kind (a_kind at_) = false -> ref_info sch e a = None.
+Proof. intros. unfold ref_info. rewrite H. destruct (a_kind at_); try reflexivity. discriminate. Qed.
+
+Lemma Pkr_set_op : forall s h a v, Pkr sch s -> Pkr sch (fst (set_op sch s h a v)).
+Proof.
+  intros s h a v P. unfold set_op. destruct (hget s h) as [o|]; [|exact P].
+  destruct (get_attr sch (obj_ent s o) a) as [at_|] eqn:GA; [|exact P].
+  destruct (is_set_kind (a_kind at_)). exact P.
+  destruct (negb (handles_ok s (arg_handles v))). exact P.
+  destruct (is_del (obj_st s o)) eqn:ND. exact P.
+  destruct (validate s at_ (Some v)) as [nv| |]; try exact P.
+  pose proof (Fr_mark_written sch s o a ND) as F1.
+  destruct (is_ref_kind (a_kind at_)) eqn:RK.
+  { cbn [fst]. apply Pkr_ref_set_direct; auto. apply not_del_vex; auto. }
+  destruct (negb (a_uniq at_)) eqn:NU.
+  { cbn [fst]. eapply Fr_Pkr; [|exact P]. eapply Fr_trans. exact F1. apply Fr_put_plain_val.
+    - rewrite (kframe_obj_ent sch s _ o (proj1 F1)). rewrite (attr_uniq_get sch _ _ _ GA). apply negb_true_iff in NU. exact NU.
+    - rewrite (kframe_obj_ent sch s _ o (proj1 F1)). eapply kind_plain_info; eauto. }
+  pose proof (Fr_Pkr sch _ _ F1 P) as P1.
+  destruct (oval_eqb (obj_val s o a) (Some nv)). exact P1.
+  destruct (key_conflict (mark_written s o a) o (obj_ent s o) a nv) eqn:KC.
+  { cbn [fst]. eapply Pkr_fields; [reflexivity|reflexivity|reflexivity|exact P]. }
+  cbn [fst]. apply Pkr_key_set; auto. rewrite (attr_uniq_get sch _ _ _ GA). apply negb_false_iff in NU. exact NU.
+Qed.
+End RelOps.
+
+Section RelOps2.
+Variable sch : schema.
+Hypothesis WF : wf_schema sch = true.
+
+Lemma attr_is_ref_info : forall e a, attr_is_ref sch e a = false -> ref_info sch e a = None.
+Proof. intros. unfold attr_is_ref, ref_info in *. destruct (get_attr sch e a) as [at_|]; auto. destruct (a_kind at_); auto. discriminate. Qed.
+
+Lemma setmany_apply_okr : forall s o e p,
+  Pkr sch s -> is_del (obj_st s o) = false -> obj_ent s o = e ->
+  Pkr sch (setmany_apply sch o e s p) /\ is_del (obj_st (setmany_apply sch o e s p) o) = false /\ obj_ent (setmany_apply sch o e s p) o = e.
+Proof.
+  intros s o e p P ND EE. destruct (setmany_apply_ok sch WF s o e p (Pkr_Pk sch s P) ND EE) as (_ & B & C). split; [|auto].
+  unfold setmany_apply. destruct (attr_uniq sch e (fst p)) eqn:U.
+  - apply Pkr_key_set_checked; auto.
+  - destruct (attr_is_ref sch e (fst p)) eqn:AR.
+    + apply Pkr_ref_set_direct; auto. apply not_del_vex; auto.
+    + eapply Fr_Pkr; [|exact P]. apply Fr_put_plain_val. rewrite EE; exact U. rewrite EE. apply attr_is_ref_info; auto.
+Qed.
+
+Lemma Pkr_setmany_op : forall s h kw, Pkr sch s -> Pkr sch (fst (setmany_op sch s h kw)).
+Proof.
+  intros s h kw P. unfold setmany_op. destruct (hget s h) as [o|]; [|exact P].
+  set (e := obj_ent s o).
+  destruct (existsb _ kw). exact P. destruct (negb (kw_handles_ok s kw)). exact P.
+  destruct (is_del (obj_st s o)). exact P.
+  destruct (validate_kw sch s e kw) as [cs| |]; try exact P.
+  set (avs := flat_map (fun p => match snd p with CVal v => [(fst p, v)] | CSet _ => [] end) cs).
+  set (cavs := flat_map (fun p => match snd p with CSet l => [(fst p, l)] | CVal _ => [] end) cs).
+  match goal with |- context [match ?r0 with Ok _ _ => _ | Err _ _ => _ end] => set (r := r0) end.
+  assert (P0 : Pkr sch (out_state r)).
+  { unfold r. destruct avs. exact P. match goal with |- context [if ?c then _ else _] => destruct c end. apply Pkr_load_obj_noflush; auto. exact P. }
+  destruct r as [s1 u|s1 er]; [|exact P0]. cbn [out_state] in P0.
+  destruct (is_del (obj_st s1 o) || negb (Nat.eqb (obj_ent s1 o) e)) eqn:CHK. cbn [fst]. apply Pkr_dirty. discriminate.
+  apply orb_false_iff in CHK. destruct CHK as [ND1 EE1]. apply negb_false_iff in EE1. apply Nat.eqb_eq in EE1.
+  set (s2 := fold_left (fun acc p => mark_written acc o (fst p)) avs s1).
+  assert (F2 : Fr sch s1 s2).
+  { unfold s2. clear -ND1. revert s1 ND1. induction avs as [|p t IH]; intros s1 ND1; simpl. apply Fr_refl.
+    pose proof (Fr_mark_written sch s1 o (fst p) ND1) as F. eapply Fr_trans. exact F. apply IH.
+    rewrite (kframe_is_del sch s1 _ o (proj1 F)). exact ND1. }
+  pose proof (Fr_Pkr sch _ _ F2 P0) as P2.
+  assert (ND2 : is_del (obj_st s2 o) = false) by (rewrite (kframe_is_del sch s1 s2 o (proj1 F2)); exact ND1).
+  assert (EE2 : obj_ent s2 o = e) by (rewrite (kframe_obj_ent sch s1 s2 o (proj1 F2)); exact EE1).
+  set (avs' := filter (fun p => negb (oval_eqb (obj_val s2 o (fst p)) (Some (snd p)))) avs).
+  match goal with |- context [setmany_scan o e s2 false ?k] => destruct (setmany_scan o e s2 false k) as [[sio ch] cf] end.
+  match goal with |- context [if ?c then (mark_declined s, RDecline) else _] => destruct c end. exact P.
+  destruct cf. { cbn [fst]. destruct ch. apply Pkr_dirty. discriminate. exact P2. }
+  assert (P3 : Pkr sch (fold_left (setmany_apply sch o e) avs' s2)).
+  { generalize avs'. intro l. generalize P2 ND2 EE2. generalize s2. clear -WF.
+    induction l as [|p t IH]; intros s0 Q2 D2 E2; simpl. exact Q2.
+    destruct (setmany_apply_okr s0 o e p Q2 D2 E2) as (A & B & C). apply IH; auto. }
+  pose proof (Pkr_fold_out sch _ (fun acc p => coll_assign sch acc o (fst p) (snd p)) cavs _ (fun s0 x P0 => Pkr_coll_assign sch WF s0 o (fst x) (snd x) P0) P3) as P4.
+  destruct (fold_out (fun acc p => coll_assign sch acc o (fst p) (snd p)) (fold_left (setmany_apply sch o e) avs' s2) cavs) as [s4 u4|s4 er].
+  - exact P4.
+  - cbn [fst]. destruct (ch || Nat.ltb 1 (length cavs)). apply Pkr_dirty. discriminate. exact P2.
+Qed.
+
+(* creation *)
+Lemma Pkr_new_rel_step : forall o e acc p,
+  Pkr sch acc -> is_del (obj_st acc o) = false ->
+  (forall items, snd p = CSet items -> any_del acc items = false) -> Pkr sch (new_rel_step sch o e acc p).
+Proof.
+  intros o e acc p P NDO AL. unfold new_rel_step. destruct (snd p) as [v|items] eqn:SP.
+  - destruct v; try exact P. apply Pkr_ref_set_direct; auto. apply not_del_vex; auto.
+  - destruct items as [|i0 it0]. exact P. set (items := i0 :: it0) in *.
+    destruct (set_info sch e (fst p)) as [[t r_]|]; [|exact P].
+    set (acc1 := fold_left (fun ac i => item_link sch ac o (fst p) r_ i) items (note_order acc items)).
+    assert (P1 : Pkr sch acc1).
+    { unfold acc1. apply Pkr_fold_items.
+      - intros. apply Pkr_item_link; auto.
+      - intros. apply kframe_item_link; auto.
+      - eapply Fr_Pkr; [apply Fr_note_order|exact P].
+      - rewrite (any_del_kframe sch acc (note_order acc items) items (kframe_note_order sch oid acc items)). apply AL. reflexivity. }
+    destruct (negb (Nat.eqb (s_dirty acc1) O) || seteq_nat (sd_items (get_sd acc1 o (fst p))) items) eqn:CND.
+    + apply orb_true_iff in CND. destruct CND as [DZ|SEQ].
+      { left. rewrite dirty_final_sd. apply negb_true_iff in DZ. apply Nat.eqb_neq in DZ. exact DZ. }
+      eapply Pkr_fields; [reflexivity|reflexivity|reflexivity|]. eapply Fr_Pkr; [|exact P1]. eapply Fr_trans; [|apply Fr_modcoll_add].
+      apply Fr_put_sd_members. intros y. cbn [sd_items]. rewrite seteq_nat_spec in SEQ. symmetry. apply SEQ.
+    + left. cbn [s_dirty set_modified]. unfold modcoll_add. destruct (existsb _ _); cbn [s_dirty set_modcoll]; unfold put_sd; rewrite upd_obj_dirty; unfold mark_dirty; cbn [s_dirty]; destruct (s_dirty acc1); discriminate.
+Qed.
+
+Lemma Pkr_new_rel_fold : forall o e ics acc, Pkr sch acc -> is_del (obj_st acc o) = false ->
+  (forall p items, In p ics -> snd p = CSet items -> any_del acc items = false) ->
+  Pkr sch (fold_left (new_rel_step sch o e) ics acc).
+Proof.
+  intros o e ics. induction ics as [|p t IH]; intros acc P NDO AL; simpl. exact P.
+  assert (F : kframe_d sch acc (new_rel_step sch o e acc p)).
+  { apply kframe_d_new_rel_step; auto. intros items H. apply (AL p items); auto. left. reflexivity. }
+  apply IH.
+  - apply Pkr_new_rel_step; auto. intros items H. apply (AL p items); auto. left. reflexivity.
+  - rewrite (kframe_d_is_del sch acc _ o F). exact NDO.
+  - intros q items I H. rewrite (any_del_kframe_d sch acc _ items F). apply (AL q items); auto. right. exact I.
+Qed.
+End RelOps2.
+
+Section RelOps3.
+Variable sch : schema.
+Hypothesis WF : wf_schema sch = true.
+
+Lemma oref_new_obj_record : forall e pk cs n a, oref (new_obj_record true e pk cs n) a = None.
+Proof.
+  intros. unfold oref, oval, new_obj_record. cbn [o_vals].
+  destruct (nth_error (map (fun p => if Nat.ltb (fst p) n then cval_init true (snd p) else None) (combine (seq 0 (length cs)) cs)) a) as [x|] eqn:N.
+  - rewrite (nth_error_nth _ _ None N). apply nth_error_In in N. apply in_map_iff in N. destruct N as (p & E & _). subst x.
+    destruct (Nat.ltb (fst p) n); auto. destruct (snd p) as [v|l]; simpl; auto. destruct v; reflexivity.
+  - rewrite nth_overflow. reflexivity. apply nth_error_None. exact N.
+Qed.
+
+Lemma oitems_new_obj_record : forall e pk cs n r, oitems (new_obj_record true e pk cs n) r = [].
+Proof.
+  intros. unfold oitems, oset, new_obj_record. cbn [o_sets].
+  match goal with |- context [nth r ?l None] => destruct (nth_error l r) as [x|] eqn:N end.
+  - rewrite (nth_error_nth _ _ None N). apply nth_error_In in N. apply in_map_iff in N. destruct N as (p & E & _). subst x.
+    destruct (snd p); auto. destruct (Nat.leb (fst p) n); reflexivity.
+  - rewrite nth_overflow. reflexivity. apply nth_error_None. exact N.
+Qed.
+
+Lemma Pkr_new_op : forall s e pk kw, Pkr sch s -> Pkr sch (fst (new_op sch s e pk kw)).
+Proof.
+  intros s e pk kw P. unfold new_op. destruct (nth_error sch e) as [en|] eqn:EN; [|exact P].
+  destruct (negb (kw_handles_ok s kw)). exact P.
+  destruct (existsb _ kw). exact P.
+  destruct (negb (e_auto en) && match pk with None => true | Some _ => false end). exact P.
+  destruct (validate_all s (e_attrs en) 0 kw) as [cs| |] eqn:VA; try exact P.
+  set (n := length cs). set (ob0 := new_obj_record true e pk cs n).
+  destruct (key_conflicts sch s e ob0 (seq 0 n)) eqn:KC. exact P.
+  destruct (match pk with Some z => match idx_get s e 0 (VInt z) with Some _ => true | None => false end | None => false end) eqn:PC. exact P.
+  destruct (first_bad_set s cs 0) as [j|] eqn:FB.
+  { unfold push_obj. cbn [fst]. apply Pkr_dirty. discriminate. }
+  unfold push_obj.
+  destruct (Pk_new_registered sch s e en pk kw cs EN VA KC PC (Pkr_Pk sch s P)) as (PK3 & D3 & G3). unfold new_registered in PK3, D3, G3. fold n ob0 in PK3, D3, G3.
+  set (o := length (s_objs s)) in *. set (s1 := set_objs s (s_objs s ++ [ob0])) in *.
+  set (s2 := match pk with Some z => idx_put s1 e 0 (VInt z) o | None => s1 end) in *.
+  set (s3 := put_keys sch s2 o e (seq 0 n)) in *.
+  destruct (new_obj_record_props true e pk cs n) as (OE & OP & OS & OL). fold ob0 in OE, OP, OS, OL.
+  assert (P3 : Pkr sch s3).
+  { destruct P as [D|(I & SH & SS & R)]. left; congruence.
+    apply Pkr_of_parts; auto. intros _.
+    assert (O3 : s_objs s3 = s_objs (fst (push_obj s ob0))).
+    { destruct (put_keys_objs sch (seq 0 n) s2 o e) as [A _]. fold s3 in A. rewrite A. unfold s2. destruct pk; reflexivity. }
+    assert (RF : rframe sch (fst (push_obj s ob0)) s3) by (apply rframe_fields; auto).
+    split.
+    - eapply rframe_sshape; eauto. apply sshape_push; auto. unfold ob0, new_obj_record. cbn [o_sets o_ent].
+      rewrite map_length, combine_length, seq_length. unfold n. rewrite Nat.min_id.
+      rewrite (validate_all_length s _ _ _ _ VA). symmetry. unfold nattrs. rewrite EN. reflexivity.
+    - eapply rframe_Inv; eauto. apply Inv_rel_push; auto. intros. apply oref_new_obj_record. intros. apply oitems_new_obj_record. }
+  match goal with |- context [fold_left ?f (combine (seq 0 n) cs) s3] => change f with (new_rel_step sch o e) end.
+  set (s4 := fold_left (new_rel_step sch o e) (combine (seq 0 n) cs) s3).
+  assert (P4 : Pkr sch s4).
+  2:{ pose proof (Pkr_handle_of sch (queue s4 o) o (Fr_Pkr sch _ _ (Fr_queue sch s4 o) P4)) as P5.
+      destruct (handle_of (queue s4 o) o). exact P5. }
+  apply Pkr_new_rel_fold; auto.
+  { unfold obj_st. rewrite G3, Nat.eqb_refl. rewrite OS. reflexivity. }
+  intros p items I SP. pose proof (In_combine_snd _ _ _ _ p I) as IC. rewrite SP in IC.
+  pose proof (first_bad_set_none s cs 0 FB items IC) as AD.
+  unfold any_del. rewrite <- AD. unfold any_del. apply existsb_ext_eq_in. intros i Hi.
+  pose proof (any_del_false_lt s items i AD Hi) as L.
+  unfold obj_st. rewrite G3. assert (Nat.eqb i o = false) by (apply Nat.eqb_neq; unfold o; lia). rewrite H. reflexivity.
+Qed.
+
+Lemma Pkr_delete_op : forall s h, Pkr sch s -> Pkr sch (fst (delete_op sch s h)).
+Proof. intros. unfold delete_op. destruct (hget s h); auto. apply Pkr_lift_unit. apply Pkr_delete_obj; auto. Qed.
+
+Lemma Pkr_coll_op : forall s k h a hs, Pkr sch s -> Pkr sch (fst (coll_op sch s k h a hs)).
+Proof.
+  intros s k h a hs P. unfold coll_op. destruct (hget s h) as [o|]; [|exact P].
+  destruct (get_attr sch (obj_ent s o) a) as [at_|]; [|exact P].
+  destruct (a_kind at_); try exact P.
+  destruct (negb (handles_ok s hs)). exact P. destruct (is_del (obj_st s o)). exact P.
+  destruct (validate_set s tgt (Some (AObjs hs))) as [items| |]; try exact P.
+  apply Pkr_lift_unit. destruct k. apply Pkr_coll_add; auto. apply Pkr_coll_remove; auto. apply Pkr_coll_assign; auto.
+Qed.
+
+Lemma Pkr_read_op : forall s h a, Pkr sch s -> Pkr sch (fst (read_op sch s h a)).
+Proof.
+  intros s h a P. unfold read_op. destruct (hget s h) as [o|]; [|exact P].
+  destruct (get_attr sch (obj_ent s o) a) as [at_|]; [|exact P].
+  destruct (a_kind at_) eqn:K.
+  1,2,3: (destruct (is_gone (obj_st s o)); [exact P|];
+    assert (FIN : forall s1, Pkr sch s1 -> Pkr sch (fst (match obj_val s1 o a with
+            | Some (VRef x) => let '(s2, hx) := handle_of s1 x in (s2, RObj hx)
+            | Some VNone => if is_ref_kind (a_kind at_) then (s1, RNoneObj) else (s1, RVal VNone)
+            | Some v => (s1, RVal v)
+            | None => (s1, RErr EKeyError) end)));
+    [ intros s1 P1; destruct (obj_val s1 o a) as [[| | |x]|]; try exact P1;
+      try (destruct (is_ref_kind (a_kind at_)); exact P1);
+      try (pose proof (Pkr_handle_of sch s1 x P1) as Q; destruct (handle_of s1 x); exact Q) |];
+    rewrite K in FIN;
+    destruct (obj_val s o a) as [v0|] eqn:OV;
+    [ destruct v0 as [| | |x]; try exact P;
+      try (match goal with |- context [if ?c then _ else _] => destruct c end; exact P);
+      try (pose proof (Pkr_handle_of sch s x P) as Q; destruct (handle_of s x); exact Q) |];
+    pose proof (Pkr_auto_flush sch s P) as P1; destruct (auto_flush sch s) as [s1 u|s1 er]; [|exact P1];
+    pose proof (Pkr_load_obj_noflush sch WF s1 o P1) as P2; destruct (load_obj_noflush sch s1 o) as [s2 u2|s2 er]; [|exact P2];
+    apply FIN; exact P2).
+  destruct (is_del (obj_st s o)). exact P.
+  destruct (has_sd s o a && coll_full s o a).
+  { destruct (copy_assert_fails s o a). exact P. apply Pkr_objs_res; auto. }
+  pose proof (Pkr_auto_flush sch s P) as P1. destruct (auto_flush sch s) as [s1 u|s1 er]; [|exact P1].
+  pose proof (Pkr_coll_load_noflush sch WF s1 o a P1) as P2. destruct (coll_load_noflush sch s1 o a) as [s2 u2|s2 er]; [|exact P2].
+  destruct (copy_assert_fails s2 o a). exact P2. apply Pkr_objs_res; auto.
+Qed.
+
+Lemma Pkr_with_set_attr : forall s h a k,
+  (forall o tg r, Pkr sch (fst (k o tg r))) -> Pkr sch s -> Pkr sch (fst (with_set_attr sch s h a k)).
+Proof.
+  intros s h a k K P. unfold with_set_attr. destruct (hget s h) as [o|]; [|exact P].
+  destruct (get_attr sch (obj_ent s o) a) as [at_|]; [|exact P]. destruct (a_kind at_); try exact P. apply K.
+Qed.
+
+Lemma Pkr_count_op : forall s h a, Pkr sch s -> Pkr sch (fst (count_op sch s h a)).
+Proof.
+  intros s h a P. unfold count_op. apply Pkr_with_set_attr; auto. intros o tg r.
+  destruct (is_del (obj_st s o)). exact P.
+  assert (P0 : Pkr sch (coll_ensure s o a)) by (eapply Fr_Pkr; [apply Fr_coll_ensure|exact P]).
+  destruct (sd_count (get_sd (coll_ensure s o a) o a)).
+  - destruct (has_sd s o a); assumption.
+  - cbn [fst]. eapply Fr_Pkr; [|exact P0]. apply Fr_put_sd_members. intros y. cbn [sd_items]. tauto.
+Qed.
+
+Lemma Pkr_isempty_op : forall s h a, Pkr sch s -> Pkr sch (fst (isempty_op sch s h a)).
+Proof.
+  intros s h a P. unfold isempty_op. apply Pkr_with_set_attr; auto. intros o tg r.
+  destruct (is_del (obj_st s o)). exact P.
+  assert (P0 : Pkr sch (coll_ensure s o a)) by (eapply Fr_Pkr; [apply Fr_coll_ensure|exact P]).
+  repeat (match goal with |- context [if ?c then _ else _] => destruct c end; try exact P0).
+  pose proof (Pkr_auto_flush sch _ P0) as P1. destruct (auto_flush sch (coll_ensure s o a)) as [s1 u|s1 er]; [|exact P1].
+  match goal with |- context [load_rows sch s1 tg ?rows] => pose proof (Pkr_load_rows sch WF rows s1 tg P1) as P2; destruct (load_rows sch s1 tg rows) as [s2 os|s2 er] end; [|exact P2].
+  destruct (sd_items (get_sd s2 o a)) eqn:IT. 2: exact P2.
+  cbn [fst]. eapply Fr_Pkr; [|exact P2]. apply Fr_put_sd_members. intros y. cbn [sd_items]. rewrite IT. tauto.
+Qed.
+
+Lemma Pkr_contains_op : forall s h a h2, Pkr sch s -> Pkr sch (fst (contains_op sch s h a h2)).
+Proof.
+  intros s h a h2 P. unfold contains_op. apply Pkr_with_set_attr; auto. intros o tg r.
+  destruct (hget s h2) as [item|]; [|exact P]. destruct (is_del (obj_st s o)). exact P.
+  destruct (negb (Nat.eqb (obj_ent s item) tg)). exact P.
+  destruct (obj_val s item r) eqn:OV. exact P.
+  pose proof (Pkr_auto_flush sch s P) as P1. destruct (auto_flush sch s) as [s1 u|s1 er]; [|exact P1].
+  pose proof (Pkr_load_obj_noflush sch WF s1 item P1) as P2. destruct (load_obj_noflush sch s1 item) as [s2 u2|s2 er]; [|exact P2].
+  destruct (obj_val s2 item r); exact P2.
+Qed.
+
+Lemma Pkr_getpk_op : forall s e v, Pkr sch s -> Pkr sch (fst (getpk_op sch s e v)).
+Proof.
+  intros s e v P. unfold getpk_op. destruct (nth_error sch e) as [en|]; [|exact P].
+  destruct v; try exact P.
+  - destruct (e_auto en); [|exact P]. pose proof (Pkr_auto_flush sch s P) as P1. destruct (auto_flush sch s); exact P1.
+  - destruct (idx_get s e 0 (VInt z)) as [o|].
+    + destruct (status_eqb (obj_st s o) SMarked). exact P. pose proof (Pkr_handle_of sch s o P) as Q. destruct (handle_of s o). exact Q.
+    + pose proof (Pkr_auto_flush sch s P) as P1. destruct (auto_flush sch s) as [s1 u|s1 er]; [|exact P1].
+      destruct (find_row (tab (s_db s1) e) z) as [r|]; [|exact P1].
+      pose proof (Pkr_load_row sch WF s1 e r P1) as P2. destruct (load_row sch s1 e r) as [s2 [o|]|s2 er]; try exact P2.
+      pose proof (Pkr_handle_of sch s2 o P2) as Q. destruct (handle_of s2 o). exact Q.
+Qed.
+
+Lemma Pkr_getby_op : forall s e a v, Pkr sch s -> Pkr sch (fst (getby_op sch s e a v)).
+Proof.
+  intros s e a v P. unfold getby_op. destruct (get_attr sch e a) as [at_|]; [|exact P].
+  destruct (negb (handles_ok s (arg_handles v))). exact P.
+  destruct (a_kind at_) eqn:K.
+  4:{ destruct (validate_set s tgt (Some v)); exact P. }
+  all: destruct (validate s at_ (Some v)) as [cv| |]; try exact P;
+    (match goal with |- context [match ?c with Some _ => _ | None => _ end] => destruct c as [o|] end;
+     [ repeat (match goal with |- context [if ?c then _ else _] => destruct c end; try exact P);
+       pose proof (Pkr_handle_of sch s o P) as Q; destruct (handle_of s o); exact Q |]);
+    pose proof (Pkr_auto_flush sch s P) as P1; destruct (auto_flush sch s) as [s1 u|s1 er]; [|exact P1];
+    match goal with |- context [if ?c then _ else _] => destruct c end; [exact P1|];
+    match goal with |- context [load_rows sch s1 ?ee ?rows] => pose proof (Pkr_load_rows sch WF rows s1 ee P1) as P2; destruct (load_rows sch s1 ee rows) as [s2 [|o os]|s2 er] end; try exact P2;
+    pose proof (Pkr_handle_of sch s2 o P2) as Q; destruct (handle_of s2 o); exact Q.
+Qed.
+
+Lemma Pkr_select_op : forall s e a v, Pkr sch s -> Pkr sch (fst (select_op sch s e a v)).
+Proof.
+  intros s e a v P. unfold select_op. destruct (get_attr sch e a) as [at_|]; [|exact P].
+  destruct (negb (handles_ok s (arg_handles v))). exact P.
+  destruct (a_kind at_); try exact P;
+    (destruct (validate s at_ (Some v)) as [cv| |]; try exact P;
+     pose proof (Pkr_auto_flush sch s P) as P1; destruct (auto_flush sch s) as [s1 u|s1 er]; [|exact P1];
+     match goal with |- context [load_rows sch s1 ?ee ?rows] => pose proof (Pkr_load_rows sch WF rows s1 ee P1) as P2; destruct (load_rows sch s1 ee rows) as [s2 os|s2 er] end; [|exact P2];
+     apply Pkr_objs_res; auto).
+Qed.
+
+Lemma Pkr_selectall_op : forall s e, Pkr sch s -> Pkr sch (fst (selectall_op sch s e)).
+Proof.
+  intros s e P. unfold selectall_op. destruct (nth_error sch e); [|exact P].
+  pose proof (Pkr_auto_flush sch s P) as P1. destruct (auto_flush sch s) as [s1 u|s1 er]; [|exact P1].
+  pose proof (Pkr_load_rows sch WF (tab (s_db s1) e) s1 e P1) as P2. destruct (load_rows sch s1 e (tab (s_db s1) e)) as [s2 os|s2 er]; [|exact P2].
+  apply Pkr_objs_res; auto.
+Qed.
+
+Lemma Inv_rel_empty : forall s, s_objs s = [] -> Inv_rel sch s /\ Inv_sshape sch s.
+Proof.
+  intros s E. assert (G : forall o, get_obj s o = None) by (intros; unfold get_obj; rewrite E; destruct o; reflexivity).
+  split; [split; [|split]|].
+  - intros b a t r x EX. unfold vex in EX. rewrite G in EX. discriminate.
+  - intros b a t r x LV. unfold vlive in LV. rewrite G in LV. discriminate.
+  - intros x r b M. unfold vitems, coll_items in M. rewrite G in M. destruct M.
+  - intros o ob H. rewrite G in H. discriminate.
+Qed.
+
+Lemma Pkr_reset : forall d, Pkr sch (reset_sess d).
+Proof.
+  intros. destruct (Pk_reset sch d) as [D|[I SH]]. left; exact D. right. destruct (Inv_rel_empty (reset_sess d) eq_refl). auto.
+Qed.
+
+Lemma Pkr_keep_declined : forall s0 s1, Pkr sch s1 -> Pkr sch (keep_declined s0 s1).
+Proof. intros. unfold keep_declined. destruct (s_declined s0); exact H. Qed.
+
+Lemma Pkr_step : forall s op, Pkr sch s -> Pkr sch (fst (step sch s op)).
+Proof.
+  intros s op P. unfold step. destruct (s_declined s). exact P.
+  destruct op.
+  - apply Pkr_new_op; auto.
+  - apply Pkr_set_op; auto.
+  - apply Pkr_setmany_op; auto.
+  - apply Pkr_delete_op; auto.
+  - apply Pkr_coll_op; auto.
+  - apply Pkr_coll_op; auto.
+  - apply Pkr_coll_op; auto.
+  - apply Pkr_read_op; auto.
+  - unfold pk_op. destruct (hget s h); exact P.
+  - apply Pkr_count_op; auto.
+  - apply Pkr_isempty_op; auto.
+  - apply Pkr_contains_op; auto.
+  - apply Pkr_getpk_op; auto.
+  - apply Pkr_getby_op; auto.
+  - apply Pkr_select_op; auto.
+  - apply Pkr_selectall_op; auto.
+  - unfold flush_op. apply Pkr_lift_unit. apply Pkr_flush; auto.
+  - unfold commit_op. pose proof (Pkr_flush sch s P) as P1. destruct (flush sch s) as [s1 u|s1 er]; cbn [fst].
+    exact P1. apply Pkr_keep_declined. apply Pkr_reset.
+  - unfold rollback_op. cbn [fst]. apply Pkr_keep_declined. apply Pkr_reset.
+  - unfold newsession_op. destruct (flush sch s) as [s1 u|s1 er]; cbn [fst]; apply Pkr_keep_declined; apply Pkr_reset.
+Qed.
+
+Lemma Pkr_init : Pkr sch (init_sess sch).
+Proof.
+  destruct (Pk_init sch) as [D|[I SH]]. left; exact D. right. destruct (Inv_rel_empty (init_sess sch) eq_refl). auto.
+Qed.
+
+Lemma Pkr_run : forall ops, Pkr sch (run sch ops).
+Proof.
+  intros ops. unfold run. generalize (init_sess sch) Pkr_init. induction ops as [|op t IH]; intros s P; simpl. exact P.
+  apply IH. apply Pkr_step. exact P.
+Qed.
+
+(* C12 *)
+Theorem rel_invariant_all_histories : forall ops, s_dirty (run sch ops) = O -> Inv_rel sch (run sch ops).
+Proof. intros ops D. destruct (Pkr_run ops) as [H|(_ & _ & _ & H)]. contradiction. exact H. Qed.
+End RelOps3.
